@@ -4,28 +4,170 @@
 //! the factory), token-merge-factory → token-merge-minter + its sg721-base collection. Compared with the Lean model
 //! `LP.TM` (driver `drv_c17`, protocol documented in `lean/LaunchpadModel/Driver/C17.lean`).
 //!
-//! Fixed addresses (instantiate order is deterministic, asserted in `begin`):
-//!   contract0 base-factory; contract(1+2i) base minter i, contract(2+2i) source collection i (ids 1002,1004,1006,1008);
-//!   contract9 token-merge-factory; contract10 the minter (1010); contract11 its collection (1011).
+//! Addresses in the protocol are LOGICAL ids; the real address strings are whatever `create_minter` returned
+//! (`S::a` / `S::id` translate), so a different instantiate numbering in cw-multi-test changes nothing:
+//!   1000 base-factory; 1001+2i base minter i, 1002+2i source collection i; 1009 token-merge-factory; 1010 the minter; 1011 its collection.
 //! Accounts: admin/creator = 10, users 20..24, gov 90.
+//!
+//! Round 3:
+//! * the monitors judge the property on a harness-side GHOST (`Ghost`): what the harness configured (requirement vector, clock),
+//!   which deposits it saw accepted AND burned (source collection observations), which tokens appeared in the target collection.
+//!   The minter's own answers (`DepositedTokens`, typed `RECEIVED_TOKENS`, `Config`) are COMPARED with the ghost, never trusted.
+//! * no event attributes, no raw storage keys: minted ids come from a diff of the target collection's `AllTokens`; source token
+//!   ids from a diff of `Tokens{owner}`; the mintable-id set is read through `token_merge_minter::state` and is outside the projection.
+//! * the message surface is enumerated at run time from `schema_for!(ExecuteMsg)` / `schema_for!(ReceiveNftMsg)`; a variant this file
+//!   does not know is sent as raw JSON (`noise what=x:<variant>`, `send … bad=3 inner=<variant>`) under all monitors.
+use cosmwasm_std::{Addr, Order, Storage};
 use lp_harness::minters::*;
 use lp_harness::world::{addr, addr_id};
 use lp_harness::*;
-use serde_json::{json, Value};
-use std::collections::BTreeMap;
+use serde_json::{json, Map, Value};
+use std::collections::{BTreeMap, BTreeSet};
 
 const ADMIN: u64 = 10;
+const BASE_FACTORY: u64 = 1000;
+const BASE_MINTERS: [u64; 4] = [1001, 1003, 1005, 1007];
 const COLLS: [u64; 4] = [1002, 1004, 1006, 1008];
+const TM_FACTORY: u64 = 1009;
 const SELF: u64 = 1010;
 const TGT: u64 = 1011;
 const USERS: [u64; 5] = [20, 21, 22, 23, 24];
 const NOW0: u64 = GENESIS + 1_000;
 const MAXLIM: u32 = 50;
-const BASE_MINT_FEE: u128 = 50_000_000 * 1000 / 10_000;
 
+// ------------------------------------------------------------------------------------------------ run-time message surface
+
+/// ExecuteMsg variants this file has a named op for
+const KNOWN_EXEC: [&str; 9] = ["receive_nft", "purge", "update_start_time", "update_start_trading_time", "update_per_address_limit", "mint_to", "mint_for", "shuffle", "burn_remaining"];
+/// ReceiveNftMsg (the inner message of a deposit) variants this file knows
+const KNOWN_INNER: [&str; 1] = ["deposit_token"];
+
+fn exec_schema() -> Value {
+    serde_json::to_value(&cosmwasm_schema::schema_for!(token_merge_minter::msg::ExecuteMsg)).expect("schema to json")
+}
+fn inner_schema() -> Value {
+    serde_json::to_value(&cosmwasm_schema::schema_for!(token_merge_minter::msg::ReceiveNftMsg)).expect("schema to json")
+}
+
+/// (variant name in snake case, schema of its payload; None for a unit variant serialised as a bare string)
+fn schema_variants(root: &Value) -> Vec<(String, Option<Value>)> {
+    let mut out = vec![];
+    let mut alts: Vec<Value> = vec![];
+    for k in ["oneOf", "anyOf"] {
+        if let Some(a) = root[k].as_array() {
+            alts.extend(a.iter().cloned());
+        }
+    }
+    if alts.is_empty() {
+        alts.push(root.clone());
+    }
+    for alt in alts {
+        if let Some(en) = alt["enum"].as_array() {
+            for e in en {
+                if let Some(s) = e.as_str() {
+                    out.push((s.to_string(), None));
+                }
+            }
+        } else if let Some(req) = alt["required"].as_array() {
+            if let Some(name) = req.first().and_then(|x| x.as_str()) {
+                out.push((name.to_string(), Some(alt["properties"][name].clone())));
+            }
+        }
+    }
+    out.sort_by(|a, b| a.0.cmp(&b.0));
+    out.dedup_by(|a, b| a.0 == b.0);
+    out
+}
+
+/// minimal JSON value for a schema: integers = k, strings = k (or an address when the field name looks like one), options = null
+fn fill(s: &Value, defs: &Value, k: u64, hint: &str, who: &str, depth: u32) -> Value {
+    if depth > 8 {
+        return Value::Null;
+    }
+    if let Some(r) = s["$ref"].as_str() {
+        let name = r.rsplit('/').next().unwrap_or("");
+        return fill(&defs[name], defs, k, hint, who, depth + 1);
+    }
+    if let Some(a) = s["allOf"].as_array() {
+        if let Some(f) = a.first() {
+            return fill(f, defs, k, hint, who, depth + 1);
+        }
+    }
+    for key in ["anyOf", "oneOf"] {
+        if let Some(a) = s[key].as_array() {
+            if a.iter().any(|x| x["type"] == "null") {
+                return Value::Null;
+            }
+            if let Some(f) = a.first() {
+                if let Some(req) = f["required"].as_array().and_then(|r| r.first()).and_then(|x| x.as_str()) {
+                    let mut m = Map::new();
+                    m.insert(req.to_string(), fill(&f["properties"][req], defs, k, req, who, depth + 1));
+                    return Value::Object(m);
+                }
+                return fill(f, defs, k, hint, who, depth + 1);
+            }
+        }
+    }
+    if let Some(en) = s["enum"].as_array() {
+        return en.first().cloned().unwrap_or(Value::Null);
+    }
+    let ty: String = match &s["type"] {
+        Value::String(t) => t.clone(),
+        Value::Array(ts) => {
+            if ts.iter().any(|t| t == "null") {
+                return Value::Null;
+            }
+            ts.first().and_then(|t| t.as_str()).unwrap_or("").to_string()
+        }
+        _ => String::new(),
+    };
+    match ty.as_str() {
+        "integer" | "number" => json!(k),
+        "string" => {
+            let h = hint.to_lowercase();
+            if ["addr", "recipient", "collection", "contract", "owner", "sender", "admin"].iter().any(|w| h.contains(w)) {
+                json!(who)
+            } else {
+                json!(k.to_string())
+            }
+        }
+        "boolean" => json!(k % 2 == 1),
+        "array" => json!([]),
+        "object" => {
+            let mut m = Map::new();
+            if let Some(req) = s["required"].as_array() {
+                for r in req.iter().filter_map(|x| x.as_str()) {
+                    m.insert(r.to_string(), fill(&s["properties"][r], defs, k, r, who, depth + 1));
+                }
+            }
+            Value::Object(m)
+        }
+        _ => Value::Null,
+    }
+}
+
+/// raw message for a variant found in a schema
+fn raw_variant_msg(root: &Value, name: &str, k: u64, who: &str) -> Option<Value> {
+    let defs = &root["definitions"];
+    schema_variants(root).into_iter().find(|(n, _)| n == name).map(|(n, sch)| match sch {
+        None => Value::String(n),
+        Some(s) => {
+            let mut m = Map::new();
+            m.insert(n.clone(), fill(&s, defs, k, &n, who, 0));
+            Value::Object(m)
+        }
+    })
+}
+
+fn unknown_of(root: &Value, known: &[&str]) -> Vec<String> {
+    schema_variants(root).into_iter().map(|(n, _)| n).filter(|n| !known.contains(&n.as_str())).collect()
+}
+
+// ------------------------------------------------------------------------------------------------ observations and ghost
+
+/// what the minter itself answers (queries) — compared with the ghost, used for frame checks
 #[derive(Clone, Debug, Default, PartialEq)]
 struct Snap {
-    now: u64,
     start: u64,
     limit: u32,
     req: Vec<(u64, u32)>,
@@ -35,6 +177,56 @@ struct Snap {
     cnt: BTreeMap<u64, u32>,
 }
 
+/// the harness's own bookkeeping, independent of the minter's answers
+#[derive(Clone, Debug, Default)]
+struct Ghost {
+    /// requirement vector the harness configured (case header)
+    req: Vec<(u64, u32)>,
+    /// block time the harness set
+    now: u64,
+    /// start time in force: header value; re-read only right after a successful `set_start` (the one op allowed to move it)
+    start: u64,
+    /// per-address limit in force: header value; re-read only right after a successful `set_limit`
+    limit: u32,
+    /// (recipient, collection) → deposits accepted-and-burned since the recipient's last deposit-triggered mint
+    led: BTreeMap<(u64, u64), u32>,
+    /// (recipient, collection) → deposits accepted-and-burned, cumulative
+    credited: BTreeMap<(u64, u64), u64>,
+    /// recipient → tokens that appeared in the target collection during one of its deposits
+    dmints: BTreeMap<u64, u64>,
+    /// recipient → tokens that appeared in the target collection during an admin mint
+    amints: BTreeMap<u64, u64>,
+    /// recipient → mints since the last successful purge
+    cnt: BTreeMap<u64, u32>,
+    /// tokens not yet minted (n − mints; 0 after a successful burn_remaining)
+    left: u32,
+    /// target collection as last enumerated: token id → owner at first sight
+    tgt: BTreeMap<u64, u64>,
+}
+
+fn req_of(req: &[(u64, u32)], c: u64) -> Option<u32> {
+    req.iter().find(|(x, _)| *x == c).map(|(_, n)| *n)
+}
+fn dep_of(d: &[(u64, u32)], c: u64) -> u32 {
+    d.iter().find(|(x, _)| *x == c).map(|(_, n)| *n).unwrap_or(0)
+}
+
+impl Ghost {
+    fn row(&self, r: u64) -> Vec<(u64, u32)> {
+        self.led.iter().filter(|((x, _), n)| *x == r && **n > 0).map(|((_, c), n)| (*c, *n)).collect()
+    }
+    fn led_of(&self, r: u64, c: u64) -> u32 {
+        *self.led.get(&(r, c)).unwrap_or(&0)
+    }
+    fn cnt_of(&self, r: u64) -> u32 {
+        *self.cnt.get(&r).unwrap_or(&0)
+    }
+    /// would one more token of `c` complete every entry of the requirement vector for `r`
+    fn fulfils(&self, r: u64, c: u64) -> bool {
+        self.req.iter().all(|(x, n)| self.led_of(r, *x) + if *x == c { 1 } else { 0 } >= *n)
+    }
+}
+
 #[derive(Clone, Debug)]
 struct Rec {
     line: String,
@@ -42,99 +234,201 @@ struct Rec {
     ok: bool,
     pre: Snap,
     post: Snap,
+    gpre: Ghost,
     r: u64,
     src: Option<(u64, u64)>,
     pre_own: Option<u64>,
     post_own: Option<u64>,
     pre_num: u64,
     post_num: u64,
-    picked: Option<u64>,
-    town: Option<u64>,
+    /// tokens that appeared in the target collection during the op: (id, owner)
+    new_tgt: Vec<(u64, u64)>,
 }
 
 struct S {
     w: World,
-    base_minters: Vec<String>,
+    names: BTreeMap<u64, String>,
+    ids: BTreeMap<String, u64>,
+    base_fee: u128,
+    shuffle_fee: u128,
+    n: u32,
     users: Vec<u64>,
+    cur: Snap,
+    g: Ghost,
     last: Option<Rec>,
+    exec_root: Value,
+    inner_root: Value,
+    storage_unreadable: bool,
 }
 
 fn b64(v: &Value) -> Value {
     serde_json::to_value(cosmwasm_std::to_json_binary(v).unwrap()).unwrap()
 }
+fn oks(ok: bool) -> &'static str {
+    if ok {
+        "ok"
+    } else {
+        "err"
+    }
+}
+
+fn fast_id(s: &str) -> u64 {
+    if let Some(k) = s.strip_prefix("acct") {
+        if let Ok(k) = k.parse::<u64>() {
+            return k;
+        }
+    }
+    addr_id(s)
+}
 
 impl S {
     fn new() -> S {
-        S { w: World::new(NOW0), base_minters: vec![], users: USERS.to_vec(), last: None }
+        S {
+            w: World::new(NOW0),
+            names: BTreeMap::new(),
+            ids: BTreeMap::new(),
+            base_fee: 0,
+            shuffle_fee: 0,
+            n: 0,
+            users: vec![],
+            cur: Snap::default(),
+            g: Ghost::default(),
+            last: None,
+            exec_root: exec_schema(),
+            inner_root: inner_schema(),
+            storage_unreadable: false,
+        }
     }
-    fn q_dep(&self, u: u64) -> Vec<(u64, u32)> {
-        let v = self.w.query(&addr(SELF), &json!({"deposited_tokens": {"address": addr(u)}})).expect("deposited_tokens");
-        let mut out: Vec<(u64, u32)> = v["mint_tokens"]
-            .as_array()
-            .unwrap()
-            .iter()
-            .map(|e| (addr_id(e["collection"].as_str().unwrap()), e["amount"].as_u64().unwrap() as u32))
-            .collect();
-        out.sort();
-        out
+    /// logical id → real address string
+    fn a(&self, id: u64) -> String {
+        self.names.get(&id).cloned().unwrap_or_else(|| addr(id))
     }
-    fn q_cnt(&self, u: u64) -> u32 {
-        self.w.query(&addr(SELF), &json!({"mint_count": {"address": addr(u)}})).expect("mint_count")["count"].as_u64().unwrap() as u32
+    /// real address string → logical id
+    fn id(&self, s: &str) -> u64 {
+        self.ids.get(s).copied().unwrap_or_else(|| fast_id(s))
     }
-    fn q_left(&self) -> u32 {
-        self.w.query(&addr(SELF), &json!({"mintable_num_tokens": {}})).expect("mintable")["count"].as_u64().unwrap() as u32
-    }
-    fn q_num(&self, coll: u64) -> u64 {
-        self.w.query(&addr(coll), &json!({"num_tokens": {}})).map(|v| v["count"].as_u64().unwrap()).unwrap_or(0)
-    }
-    fn q_owner(&self, coll: u64, id: u64) -> Option<u64> {
-        self.w
-            .query(&addr(coll), &json!({"owner_of": {"token_id": id.to_string(), "include_expired": null}}))
-            .ok()
-            .map(|v| addr_id(v["owner"].as_str().unwrap()))
+    fn name(&mut self, id: u64, real: &str) {
+        self.names.insert(id, real.to_string());
+        self.ids.insert(real.to_string(), id);
     }
     fn is_coll(&self, c: u64) -> bool {
         COLLS.contains(&c)
     }
-    fn snap(&self, extra: &[u64]) -> Snap {
-        let cfg = self.w.query(&addr(SELF), &json!({"config": {}})).expect("config");
+    fn pairs(&self, v: &Value) -> Vec<(u64, u32)> {
+        v.as_array().map(|a| a.iter().map(|e| (self.id(e["collection"].as_str().unwrap_or("")), e["amount"].as_u64().unwrap_or(0) as u32)).collect()).unwrap_or_default()
+    }
+    fn q_dep(&self, u: u64) -> Vec<(u64, u32)> {
+        let v = self.w.query(&self.a(SELF), &json!({"deposited_tokens": {"address": self.a(u)}})).expect("deposited_tokens");
+        let mut out = self.pairs(&v["mint_tokens"]);
+        out.sort();
+        out
+    }
+    fn q_cnt(&self, u: u64) -> u32 {
+        self.w.query(&self.a(SELF), &json!({"mint_count": {"address": self.a(u)}})).expect("mint_count")["count"].as_u64().unwrap() as u32
+    }
+    fn q_left(&self) -> u32 {
+        self.w.query(&self.a(SELF), &json!({"mintable_num_tokens": {}})).expect("mintable")["count"].as_u64().unwrap() as u32
+    }
+    fn q_num(&self, coll: u64) -> u64 {
+        self.w.query(&self.a(coll), &json!({"num_tokens": {}})).ok().and_then(|v| v["count"].as_u64()).unwrap_or(0)
+    }
+    fn q_owner(&self, coll: u64, id: u64) -> Option<u64> {
+        self.w
+            .query(&self.a(coll), &json!({"owner_of": {"token_id": id.to_string(), "include_expired": null}}))
+            .ok()
+            .and_then(|v| v["owner"].as_str().map(|s| self.id(s)))
+    }
+    /// paginated `AllTokens` / `Tokens{owner}` of a cw721 collection
+    fn q_ids(&self, coll: u64, owner: Option<u64>) -> BTreeSet<u64> {
+        let mut out = BTreeSet::new();
+        let mut after: Option<String> = None;
+        loop {
+            let q = match owner {
+                Some(o) => json!({"tokens": {"owner": self.a(o), "start_after": after, "limit": 100}}),
+                None => json!({"all_tokens": {"start_after": after, "limit": 100}}),
+            };
+            let Ok(v) = self.w.query(&self.a(coll), &q) else { break };
+            let toks: Vec<String> = v["tokens"].as_array().map(|a| a.iter().filter_map(|x| x.as_str().map(String::from)).collect()).unwrap_or_default();
+            if toks.is_empty() {
+                break;
+            }
+            for t in &toks {
+                out.insert(t.parse::<u64>().unwrap_or(u64::MAX));
+            }
+            after = toks.last().cloned();
+            if toks.len() < 100 {
+                break;
+            }
+        }
+        out
+    }
+    fn snap(&self) -> Snap {
+        let cfg = self.w.query(&self.a(SELF), &json!({"config": {}})).expect("config");
         let mut s = Snap {
-            now: self.w.time(),
-            start: cfg["start_time"].as_str().unwrap().parse().unwrap(),
-            limit: cfg["per_address_limit"].as_u64().unwrap() as u32,
-            req: cfg["mint_tokens"].as_array().unwrap().iter().map(|e| (addr_id(e["collection"].as_str().unwrap()), e["amount"].as_u64().unwrap() as u32)).collect(),
+            start: cfg["start_time"].as_str().and_then(|x| x.parse().ok()).unwrap_or(0),
+            limit: cfg["per_address_limit"].as_u64().unwrap_or(0) as u32,
+            req: self.pairs(&cfg["mint_tokens"]),
             left: self.q_left(),
             tnum: self.q_num(TGT),
             ..Default::default()
         };
-        for u in self.users.iter().chain(extra.iter()) {
+        for u in &self.users {
             s.dep.insert(*u, self.q_dep(*u));
             s.cnt.insert(*u, self.q_cnt(*u));
         }
         s
     }
-    /// remaining mintable ids from the raw `mt` map of the minter
-    fn mintable_ids(&self) -> Vec<u64> {
-        let mut ids = vec![];
-        for (k, v) in self.w.dump(&addr(SELF)) {
-            if k.len() == 8 && k[0] == 0 && k[1] == 2 && &k[2..4] == b"mt" {
-                ids.push(String::from_utf8_lossy(&v).parse::<u64>().unwrap());
+    fn track(&mut self, u: u64) {
+        if !self.users.contains(&u) {
+            self.users.push(u);
+            let d = self.q_dep(u);
+            let c = self.q_cnt(u);
+            self.cur.dep.insert(u, d);
+            self.cur.cnt.insert(u, c);
+        }
+    }
+    /// every entry of `RECEIVED_TOKENS` through the crate's own typed constant: (recipient, collection) → n
+    fn stored_ledger(&self) -> Option<BTreeMap<(u64, u64), u32>> {
+        let st = self.w.app.contract_storage(&Addr::unchecked(self.a(SELF)));
+        let st: &dyn Storage = &*st;
+        let mut out = BTreeMap::new();
+        for e in token_merge_minter::state::RECEIVED_TOKENS.range(st, None, None, Order::Ascending) {
+            let ((r, c), n) = e.ok()?;
+            if n > 0 {
+                out.insert((self.id(r.as_str()), self.id(&c)), n);
             }
+        }
+        Some(out)
+    }
+    /// remaining mintable ids through the crate's typed constant (outside the projection of C17)
+    fn mintable_ids(&self) -> Option<Vec<u64>> {
+        let st = self.w.app.contract_storage(&Addr::unchecked(self.a(SELF)));
+        let st: &dyn Storage = &*st;
+        let mut ids = vec![];
+        for e in token_merge_minter::state::MINTABLE_TOKEN_POSITIONS.range(st, None, None, Order::Ascending) {
+            ids.push(e.ok()?.1 as u64);
         }
         ids.sort();
-        ids
+        Some(ids)
     }
-    fn minted_id(&self, res: &cw_multi_test::AppResponse) -> Option<u64> {
-        for e in &res.events {
-            if e.ty != "wasm" {
-                continue;
-            }
-            let at = |k: &str| e.attributes.iter().find(|a| a.key == k).map(|a| a.value.clone());
-            if at("_contract_address").as_deref() == Some(addr(TGT).as_str()) && at("action").as_deref() == Some("mint") {
-                return at("token_id").and_then(|t| t.parse().ok());
+    /// tokens that appeared in the target collection since the last look (id, owner); updates the ghost's view of it
+    fn tgt_diff(&mut self) -> Vec<(u64, u64)> {
+        if self.q_num(TGT) == self.g.tgt.len() as u64 {
+            return vec![];
+        }
+        let ids = self.q_ids(TGT, None);
+        let mut new = vec![];
+        for id in &ids {
+            if !self.g.tgt.contains_key(id) {
+                let o = self.q_owner(TGT, *id).unwrap_or(0);
+                new.push((*id, o));
             }
         }
-        None
+        self.g.tgt.retain(|id, _| ids.contains(id));
+        for (id, o) in &new {
+            self.g.tgt.insert(*id, *o);
+        }
+        new
     }
     fn touched(&self, r: u64, src: Option<(u64, u64)>, m: Option<u64>) -> String {
         let (own, num) = match src {
@@ -144,48 +438,92 @@ impl S {
         let town = m.and_then(|id| self.q_owner(TGT, id)).unwrap_or(0);
         format!("dep={} cnt={} left={} own={} num={} tnum={} town={}", fmt_pairs(&self.q_dep(r)), self.q_cnt(r), self.q_left(), own, num, self.q_num(TGT), town)
     }
-    fn inner_msg(rcpt: Option<u64>, bad: u64) -> Value {
+    fn inner_msg(&self, rcpt: Option<u64>, bad: u64, inner: Option<&str>) -> Value {
         match bad {
             1 => b64(&json!({"deposit_token": {"recipient": "X!"}})),
             2 => b64(&json!({"withdraw_token": {}})),
-            _ => b64(&json!({"deposit_token": {"recipient": rcpt.map(addr)}})),
+            3 => b64(&raw_variant_msg(&self.inner_root, inner.unwrap_or("?"), 1, &self.a(rcpt.unwrap_or(20))).unwrap_or(json!({"unknown_variant": {}}))),
+            _ => b64(&json!({"deposit_token": {"recipient": rcpt.map(|r| self.a(r))}})),
         }
     }
-    /// runs a deposit-like / mint op with full pre/post recording; `f` performs the call
+    /// runs a deposit-like / mint op with full pre/post recording and ghost update; `f` performs the call
     fn deposit_like(
         &mut self,
         line: &str,
         kind: &str,
         r: u64,
         src: Option<(u64, u64)>,
+        is_deposit: bool,
         fixed_id: Option<u64>,
         f: impl FnOnce(&mut World) -> Result<cw_multi_test::AppResponse, String>,
     ) -> (String, String) {
-        let pre = self.snap(&[r]);
+        self.track(r);
+        let pre = self.cur.clone();
+        let gpre = self.g.clone();
         let real_src = src.filter(|(c, _)| self.is_coll(*c));
         let pre_own = real_src.and_then(|(c, id)| self.q_owner(c, id));
         let pre_num = real_src.map(|(c, _)| self.q_num(c)).unwrap_or(0);
         let res = f(&mut self.w);
         let ok = res.is_ok();
-        let picked = match &res {
-            Ok(r) => self.minted_id(r),
-            Err(_) => None,
-        };
-        let post = self.snap(&[r]);
+        let new_tgt = self.tgt_diff();
+        let picked = if ok && new_tgt.len() == 1 { Some(new_tgt[0].0) } else { None };
+        let post = self.snap();
         let post_own = real_src.and_then(|(c, id)| self.q_owner(c, id));
         let post_num = real_src.map(|(c, _)| self.q_num(c)).unwrap_or(0);
+        // ---- ghost: only from "the transaction went through", the source collection and the target collection
+        if ok {
+            if is_deposit {
+                if let Some((c, _)) = src {
+                    if post_own.is_none() && post_num + 1 == pre_num {
+                        *self.g.credited.entry((r, c)).or_insert(0) += 1;
+                        *self.g.led.entry((r, c)).or_insert(0) += 1;
+                    }
+                }
+                if !new_tgt.is_empty() {
+                    *self.g.dmints.entry(r).or_insert(0) += new_tgt.len() as u64;
+                    *self.g.cnt.entry(r).or_insert(0) += new_tgt.len() as u32;
+                    self.g.left = self.g.left.saturating_sub(new_tgt.len() as u32);
+                    // "the recipient's deposit ledger is reset after each mint"
+                    self.g.led.retain(|(x, _), _| *x != r);
+                }
+            } else {
+                for (_, o) in &new_tgt {
+                    *self.g.amints.entry(*o).or_insert(0) += 1;
+                    *self.g.cnt.entry(*o).or_insert(0) += 1;
+                    self.g.left = self.g.left.saturating_sub(1);
+                }
+            }
+        }
         // for mint_for the model looks at the requested id even on failure
         let shown = if ok { picked } else { fixed_id };
-        let town = shown.and_then(|id| self.q_owner(TGT, id));
-        let out = format!("{} m={} {}", if ok { "ok" } else { "err" }, fmt_opt(&picked), self.touched(r, src, shown));
-        self.last = Some(Rec { line: line.to_string(), kind: kind.to_string(), ok, pre, post, r, src, pre_own, post_own, pre_num, post_num, picked, town });
-        let model_line = if kind == "mint_for" { line.to_string() } else { format!("{line} picked={}", fmt_opt(&picked)) };
-        (model_line, out)
+        let out = format!("{} m={} {}", oks(ok), fmt_opt(&picked), self.touched(r, src, shown));
+        self.cur = post.clone();
+        self.last = Some(Rec { line: line.to_string(), kind: kind.to_string(), ok, pre, post, gpre, r, src, pre_own, post_own, pre_num, post_num, new_tgt });
+        let w = if ok { 1 } else { 0 };
+        match kind {
+            "mint_for" => (format!("{line} w={w}"), format!("{out} ## exp={}", oks(ok))),
+            "mint_to" => (format!("{line} w={w} picked={}", fmt_opt(&picked)), format!("{out} ## exp={}", oks(ok))),
+            _ => (format!("{line} picked={}", fmt_opt(&picked)), out),
+        }
     }
-    fn simple(&mut self, line: &str, kind: &str, ok: bool, pre: Snap, out: String) -> (String, String) {
-        let post = self.snap(&[]);
-        self.last = Some(Rec { line: line.to_string(), kind: kind.to_string(), ok, pre, post, r: 0, src: None, pre_own: None, post_own: None, pre_num: 0, post_num: 0, picked: None, town: None });
-        (line.to_string(), out)
+    /// any other op: `ok` = outcome of the transaction; ghost config re-read only for the op that is allowed to move it
+    fn simple(&mut self, line: &str, kind: &str, ok: bool) -> Snap {
+        let pre = self.cur.clone();
+        let gpre = self.g.clone();
+        let new_tgt = self.tgt_diff();
+        let post = self.snap();
+        if ok {
+            match kind {
+                "set_start" => self.g.start = post.start,
+                "set_limit" => self.g.limit = post.limit,
+                "purge" => self.g.cnt.clear(),
+                "burn_remaining" => self.g.left = 0,
+                _ => {}
+            }
+        }
+        self.cur = post.clone();
+        self.last = Some(Rec { line: line.to_string(), kind: kind.to_string(), ok, pre, post: post.clone(), gpre, r: 0, src: None, pre_own: None, post_own: None, pre_num: 0, post_num: 0, new_tgt });
+        post
     }
 }
 
@@ -197,42 +535,47 @@ impl Sut for S {
         let n = kv_u64(header, "n").expect("n") as u32;
         let price = kv_u128(header, "price").expect("price");
         let now = kv_u64(header, "now").expect("now");
-        let mut w = World::new(now);
-        w.fund(&addr(ADMIN), 0, 1_000_000_000_000_000);
-        let pb = w.default_params(MinterKind::Base);
-        let fb = w.new_factory(FactoryKind::Base, &pb).expect("base factory");
-        assert_eq!(fb, "contract0");
-        let mut base_minters = vec![];
-        for (i, c) in COLLS.iter().enumerate() {
-            let mut ab = w.default_create(MinterKind::Base, &pb);
-            ab.creator = ADMIN;
-            let (mb, cb) = w.create_minter(&fb, MinterKind::Base, &ab).expect("base minter");
-            assert_eq!(mb, format!("contract{}", 1 + 2 * i));
-            assert_eq!(cb, addr(*c));
-            base_minters.push(mb);
-        }
-        let mut p = w.default_params(MinterKind::TokenMerge);
-        p.airdrop_mint_price = (0, price);
-        p.airdrop_mint_fee_bps = 5000;
-        p.max_per_address_limit = MAXLIM;
-        let f = w.new_factory(FactoryKind::TokenMerge, &p).expect("token-merge factory");
-        let mut a = w.default_create(MinterKind::TokenMerge, &p);
-        a.creator = ADMIN;
-        a.num_tokens = Some(n);
-        a.per_address_limit = limit;
-        a.start_time = start;
-        a.mint_tokens = req.iter().map(|(c, k)| (addr(*c as u64), *k as u32)).collect();
-        let (m, c) = w.create_minter(&f, MinterKind::TokenMerge, &a).unwrap_or_else(|e| panic!("create token-merge minter: {e} ({header})"));
-        assert_eq!(m, addr(SELF));
-        assert_eq!(c, addr(TGT));
         assert_eq!(kv_u64(header, "self"), Some(SELF));
         assert_eq!(kv_u64(header, "tgt"), Some(TGT));
         assert_eq!(kv_u64(header, "admin"), Some(ADMIN));
         assert_eq!(kv_list(header, "colls").unwrap(), COLLS.iter().map(|c| *c as u128).collect::<Vec<_>>());
         assert_eq!(kv_u64(header, "maxlim"), Some(MAXLIM as u64));
+        let mut w = World::new(now);
+        w.fund(&addr(ADMIN), 0, 1_000_000_000_000_000);
+        self.names.clear();
+        self.ids.clear();
+        let pb = w.default_params(MinterKind::Base);
+        self.base_fee = pb.min_mint_price.1 * pb.mint_fee_bps as u128 / 10_000;
+        let fb = w.new_factory(FactoryKind::Base, &pb).expect("base factory");
+        self.name(BASE_FACTORY, &fb);
+        for i in 0..COLLS.len() {
+            let mut ab = w.default_create(MinterKind::Base, &pb);
+            ab.creator = ADMIN;
+            let (mb, cb) = w.create_minter(&fb, MinterKind::Base, &ab).expect("base minter");
+            self.name(BASE_MINTERS[i], &mb);
+            self.name(COLLS[i], &cb);
+        }
+        let mut p = w.default_params(MinterKind::TokenMerge);
+        p.airdrop_mint_price = (0, price);
+        p.airdrop_mint_fee_bps = 5000;
+        p.max_per_address_limit = MAXLIM;
+        self.shuffle_fee = p.shuffle_fee.1;
+        let f = w.new_factory(FactoryKind::TokenMerge, &p).expect("token-merge factory");
+        self.name(TM_FACTORY, &f);
+        let mut a = w.default_create(MinterKind::TokenMerge, &p);
+        a.creator = ADMIN;
+        a.num_tokens = Some(n);
+        a.per_address_limit = limit;
+        a.start_time = start;
+        a.mint_tokens = req.iter().map(|(c, k)| (self.a(*c as u64), *k as u32)).collect();
+        let (m, c) = w.create_minter(&f, MinterKind::TokenMerge, &a).unwrap_or_else(|e| panic!("create token-merge minter: {e} ({header})"));
+        self.name(SELF, &m);
+        self.name(TGT, &c);
         self.w = w;
-        self.base_minters = base_minters;
-        self.users = USERS.to_vec();
+        self.n = n;
+        self.users = USERS.iter().cloned().chain([ADMIN]).collect();
+        self.g = Ghost { req: req.iter().map(|(c, k)| (*c as u64, *k as u32)).collect(), now, start, limit, left: n, ..Default::default() };
+        self.cur = self.snap();
         self.last = None;
         (header.to_string(), "case".to_string())
     }
@@ -242,184 +585,206 @@ impl Sut for S {
         let g = |k: &str| kv_u64(line, k).unwrap_or_else(|| panic!("missing {k} in `{line}`"));
         match op {
             "t" => {
-                let pre = self.snap(&[]);
                 self.w.set_time(g("now"));
-                self.simple(line, "t", true, pre, "ok".into())
+                self.g.now = g("now");
+                self.simple(line, "t", true);
+                (line.to_string(), "ok".into())
             }
             "give" => {
-                let pre = self.snap(&[]);
                 let (c, to) = (g("coll"), g("to"));
                 let mut got: Option<u64> = None;
                 if let Some(i) = COLLS.iter().position(|x| *x == c) {
-                    let bm = self.base_minters[i].clone();
-                    if let Ok(res) = self.w.exec(&addr(ADMIN), &bm, &json!({"mint": {"token_uri": "ipfs://source/token"}}), &[(0, BASE_MINT_FEE)]) {
-                        for e in &res.events {
-                            let at = |k: &str| e.attributes.iter().find(|a| a.key == k).map(|a| a.value.clone());
-                            if e.ty == "wasm" && at("_contract_address").as_deref() == Some(addr(c).as_str()) && at("action").as_deref() == Some("mint") {
-                                got = at("token_id").and_then(|t| t.parse().ok());
-                            }
-                        }
-                        let id = got.expect("base mint token id");
-                        self.w
-                            .exec(&addr(ADMIN), &addr(c), &json!({"transfer_nft": {"recipient": addr(to), "token_id": id.to_string()}}), &[])
-                            .expect("distribute source token");
+                    let bm = self.a(BASE_MINTERS[i]);
+                    let before = self.q_ids(c, Some(ADMIN));
+                    if self.w.exec(&addr(ADMIN), &bm, &json!({"mint": {"token_uri": "ipfs://source/token"}}), &[(0, self.base_fee)]).is_ok() {
+                        let after = self.q_ids(c, Some(ADMIN));
+                        let id = *after.difference(&before).next().expect("base mint: new token of the creator");
+                        let (ca, toa) = (self.a(c), self.a(to));
+                        self.w.exec(&addr(ADMIN), &ca, &json!({"transfer_nft": {"recipient": toa, "token_id": id.to_string()}}), &[]).expect("distribute source token");
+                        got = Some(id);
                     }
                 }
+                self.simple(line, "give", got.is_some());
                 let out = match got {
                     Some(id) => format!("ok {id}"),
                     None => "err".into(),
                 };
-                let (_, o) = self.simple(line, "give", got.is_some(), pre, out);
-                (format!("{line} id={}", fmt_opt(&got)), o)
+                (format!("{line} id={}", fmt_opt(&got)), out)
             }
-            "xfer" | "approve" => {
-                let pre = self.snap(&[]);
-                let (caller, c, id) = (g("caller"), g("coll"), g("id"));
-                let msg = if op == "xfer" {
-                    json!({"transfer_nft": {"recipient": addr(g("to")), "token_id": id.to_string()}})
-                } else {
-                    json!({"approve": {"spender": addr(g("spender")), "token_id": id.to_string(), "expires": null}})
+            "xfer" | "approve" | "revoke" | "approve_all" | "revoke_all" => {
+                let (caller, c) = (g("caller"), g("coll"));
+                let until = |l: &str| match kv_opt_u64(l, "until").unwrap_or(None) {
+                    Some(t) => json!({"at_time": t.to_string()}),
+                    None => Value::Null,
                 };
-                let ok = self.w.exec(&addr(caller), &addr(c), &msg, &[]).is_ok();
-                let own = if self.is_coll(c) { self.q_owner(c, id).unwrap_or(0) } else { 0 };
-                self.simple(line, op, ok, pre, format!("{} own={own}", if ok { "ok" } else { "err" }))
+                let (msg, id) = match op {
+                    "xfer" => (json!({"transfer_nft": {"recipient": self.a(g("to")), "token_id": g("id").to_string()}}), Some(g("id"))),
+                    "approve" => (json!({"approve": {"spender": self.a(g("spender")), "token_id": g("id").to_string(), "expires": until(line)}}), Some(g("id"))),
+                    "revoke" => (json!({"revoke": {"spender": self.a(g("spender")), "token_id": g("id").to_string()}}), Some(g("id"))),
+                    "approve_all" => (json!({"approve_all": {"operator": self.a(g("operator")), "expires": until(line)}}), None),
+                    _ => (json!({"revoke_all": {"operator": self.a(g("operator"))}}), None),
+                };
+                let (ca, cc) = (self.a(caller), self.a(c));
+                let ok = self.w.exec(&ca, &cc, &msg, &[]).is_ok();
+                let own = match id {
+                    Some(id) if self.is_coll(c) => self.q_owner(c, id).unwrap_or(0),
+                    _ => 0,
+                };
+                self.simple(line, op, ok);
+                (line.to_string(), format!("{} own={own}", oks(ok)))
             }
             "send" => {
                 let (caller, c, id, to) = (g("caller"), g("coll"), g("id"), g("to"));
                 let rcpt = kv_opt_u64(line, "rcpt").unwrap();
                 let bad = g("bad");
-                let msg = json!({"send_nft": {"contract": addr(to), "token_id": id.to_string(), "msg": S::inner_msg(rcpt, bad)}});
-                self.deposit_like(line, "send", rcpt.unwrap_or(caller), Some((c, id)), None, |w| w.exec(&addr(caller), &addr(c), &msg, &[]))
+                let msg = json!({"send_nft": {"contract": self.a(to), "token_id": id.to_string(), "msg": self.inner_msg(rcpt, bad, kv(line, "inner"))}});
+                let (ca, cc) = (self.a(caller), self.a(c));
+                self.deposit_like(line, "send", rcpt.unwrap_or(caller), Some((c, id)), true, None, |w| w.exec(&ca, &cc, &msg, &[]))
             }
             "recv" => {
                 let (caller, sender, id) = (g("caller"), g("sender"), g("id"));
                 let rcpt = kv_opt_u64(line, "rcpt").unwrap();
                 let bad = g("bad");
-                let msg = json!({"receive_nft": {"sender": addr(sender), "token_id": id.to_string(), "msg": S::inner_msg(rcpt, bad)}});
-                self.deposit_like(line, "recv", rcpt.unwrap_or(sender), Some((caller, id)), None, |w| w.exec(&addr(caller), &addr(SELF), &msg, &[]))
+                let msg = json!({"receive_nft": {"sender": self.a(sender), "token_id": id.to_string(), "msg": self.inner_msg(rcpt, bad, kv(line, "inner"))}});
+                let (ca, me) = (self.a(caller), self.a(SELF));
+                self.deposit_like(line, "recv", rcpt.unwrap_or(sender), Some((caller, id)), true, None, |w| w.exec(&ca, &me, &msg, &[]))
             }
             "mint_to" | "mint_for" => {
                 let (caller, rcpt) = (g("caller"), g("rcpt"));
                 let pay = kv_u128(line, "pay").unwrap();
                 let funds: Vec<(u64, u128)> = if pay > 0 { vec![(0, pay)] } else { vec![] };
                 let (msg, fixed) = if op == "mint_to" {
-                    (json!({"mint_to": {"recipient": addr(rcpt)}}), None)
+                    (json!({"mint_to": {"recipient": self.a(rcpt)}}), None)
                 } else {
-                    (json!({"mint_for": {"token_id": g("id"), "recipient": addr(rcpt)}}), Some(g("id")))
+                    (json!({"mint_for": {"token_id": g("id"), "recipient": self.a(rcpt)}}), Some(g("id")))
                 };
-                self.w.fund(&addr(caller), 0, pay);
-                self.deposit_like(line, op, rcpt, None, fixed, |w| w.exec(&addr(caller), &addr(SELF), &msg, &funds))
+                let (ca, me) = (self.a(caller), self.a(SELF));
+                self.w.fund(&ca, 0, pay);
+                self.deposit_like(line, op, rcpt, None, false, fixed, |w| w.exec(&ca, &me, &msg, &funds))
             }
-            "set_start" => {
-                let pre = self.snap(&[]);
-                let ok = self.w.exec(&addr(g("caller")), &addr(SELF), &json!({"update_start_time": g("t").to_string()}), &[]).is_ok();
-                let post = self.snap(&[]);
-                self.simple(line, op, ok, pre, format!("{} start={}", if ok { "ok" } else { "err" }, post.start))
+            "set_start" | "set_limit" | "purge" | "burn_remaining" => {
+                let msg = match op {
+                    "set_start" => json!({"update_start_time": g("t").to_string()}),
+                    "set_limit" => json!({"update_per_address_limit": {"per_address_limit": g("limit")}}),
+                    "purge" => json!({"purge": {}}),
+                    _ => json!({"burn_remaining": {}}),
+                };
+                let (ca, me) = (self.a(g("caller")), self.a(SELF));
+                let ok = self.w.exec(&ca, &me, &msg, &[]).is_ok();
+                let post = self.simple(line, op, ok);
+                let st = match op {
+                    "set_start" => format!("start={}", post.start),
+                    "set_limit" => format!("limit={}", post.limit),
+                    _ => format!("left={}", post.left),
+                };
+                (format!("{line} w={}", ok as u8), format!("{} {st} ## exp={}", oks(ok), oks(ok)))
             }
-            "set_limit" => {
-                let pre = self.snap(&[]);
-                let ok = self.w.exec(&addr(g("caller")), &addr(SELF), &json!({"update_per_address_limit": {"per_address_limit": g("limit")}}), &[]).is_ok();
-                let post = self.snap(&[]);
-                self.simple(line, op, ok, pre, format!("{} limit={}", if ok { "ok" } else { "err" }, post.limit))
-            }
-            "purge" | "burn_remaining" => {
-                let pre = self.snap(&[]);
-                let msg = if op == "purge" { json!({"purge": {}}) } else { json!({"burn_remaining": {}}) };
-                let ok = self.w.exec(&addr(g("caller")), &addr(SELF), &msg, &[]).is_ok();
-                let left = self.q_left();
-                self.simple(line, op, ok, pre, format!("{} left={left}", if ok { "ok" } else { "err" }))
+            "noise" => {
+                let what = kv(line, "what").unwrap_or("?").to_string();
+                let caller = kv_u64(line, "caller").unwrap_or(ADMIN);
+                let (ca, me) = (self.a(caller), self.a(SELF));
+                let ok = match what.as_str() {
+                    "shuffle" => {
+                        self.w.fund(&ca, 0, self.shuffle_fee);
+                        let f = self.shuffle_fee;
+                        self.w.exec(&ca, &me, &json!({"shuffle": {}}), &[(0, f)]).is_ok()
+                    }
+                    "trading" => {
+                        let t = kv_opt_u64(line, "t").unwrap_or(None);
+                        self.w.exec(&ca, &me, &json!({"update_start_trading_time": t.map(|t| t.to_string())}), &[]).is_ok()
+                    }
+                    "status" => self.w.sudo(&me, &json!({"update_status": {"is_verified": true, "is_blocked": false, "is_explicit": caller % 2 == 1}})).is_ok(),
+                    "migrate" => {
+                        let code = self.w.codes.minters[MinterKind::TokenMerge.idx()];
+                        self.w.migrate(&ca, &me, code, &json!({})).is_ok()
+                    }
+                    x => match x.strip_prefix("x:").and_then(|v| raw_variant_msg(&self.exec_root, v, kv_u64(line, "k").unwrap_or(1), &self.a(20))) {
+                        Some(m) => self.w.exec(&ca, &me, &m, &[]).is_ok(),
+                        None => false,
+                    },
+                };
+                let post = self.simple(line, "noise", ok);
+                (format!("{line} w={}", ok as u8), format!("{} start={} limit={} left={} tnum={}", oks(ok), post.start, post.limit, post.left, post.tnum))
             }
             "obs" => {
                 let users: Vec<u64> = kv_list(line, "users").unwrap().iter().map(|x| *x as u64).collect();
                 let maxid = g("maxid");
-                let s = self.snap(&users);
-                let cfg = self.w.query(&addr(SELF), &json!({"config": {}})).unwrap();
-                let num_tokens = cfg["num_tokens"].as_u64().unwrap();
+                for u in &users {
+                    self.track(*u);
+                }
+                let s = self.simple(line, "obs", true);
                 let us: Vec<String> = users.iter().map(|u| format!("u{u}={}/{}", s.cnt[u], fmt_pairs(&s.dep[u]))).collect();
                 let cs: Vec<String> = COLLS
                     .iter()
                     .map(|c| format!("c{c}={}/{}", self.q_num(*c), fmt_list(&(1..=maxid).map(|id| self.q_owner(*c, id).unwrap_or(0)).collect::<Vec<_>>())))
                     .collect();
-                let tg: Vec<u64> = (1..=num_tokens).map(|id| self.q_owner(TGT, id).unwrap_or(0)).collect();
-                let out = format!(
-                    "obs start={} limit={} left={} ids={} tnum={} {} {} tgt={}",
-                    s.start, s.limit, s.left, fmt_list(&self.mintable_ids()), s.tnum, us.join(" "), cs.join(" "), fmt_list(&tg)
-                );
-                let pre = self.snap(&[]);
-                self.simple(line, "obs", true, pre, out)
+                let tg: Vec<u64> = (1..=self.n as u64).map(|id| self.q_owner(TGT, id).unwrap_or(0)).collect();
+                let ids = self.mintable_ids().map(|v| fmt_list(&v)).unwrap_or_else(|| "?".into());
+                let out = format!("obs start={} limit={} left={} tnum={} {} {} tgt={} ## ids={}", s.start, s.limit, s.left, s.tnum, us.join(" "), cs.join(" "), fmt_list(&tg), ids);
+                (line.to_string(), out)
             }
             _ => (line.to_string(), "bad-op".into()),
         }
     }
 
-    /// Direct transcription of property C17 on the implementation's own observations (independent of the Lean model).
+    /// Direct transcription of property C17. Guards and the "fulfilled" predicate are evaluated on the GHOST (what the harness
+    /// configured, sent and saw burned / minted in the collections); the minter's own answers are compared with it.
     fn monitor(&mut self) -> Option<(String, String)> {
         let rec = self.last.clone()?;
-        let Rec { line, kind, ok, pre, post, r, src, pre_own, post_own, pre_num, post_num, picked, town } = rec;
+        let Rec { line, kind, ok, pre, post, gpre, r, src, pre_own, post_own, pre_num, post_num, new_tgt } = rec;
         let bad = |p: &str, w: String| Some((format!("token-merge-minter/{kind}/{p}"), format!("{w} on `{line}`")));
-        let req_of = |req: &Vec<(u64, u32)>, c: u64| req.iter().find(|(x, _)| *x == c).map(|(_, n)| *n);
-        let dep_of = |d: &Vec<(u64, u32)>, c: u64| d.iter().find(|(x, _)| *x == c).map(|(_, n)| *n).unwrap_or(0);
         let empty: Vec<(u64, u32)> = vec![];
+        let g = self.g.clone();
 
-        // ---- every state, every tracked user: ledger ≤ required, only required collections; no fully credited ledger left pending
-        let nondegenerate = post.req.iter().any(|(_, n)| *n > 0);
-        for (u, d) in &post.dep {
-            for (c, n) in d {
-                match req_of(&post.req, *c) {
-                    None => return bad("ledger-foreign-collection", format!("ledger of {u} holds {n} tokens of non-required collection {c}")),
-                    Some(k) if *n > k => return bad("ledger-above-required", format!("ledger of {u} for {c} is {n} > required {k}")),
-                    _ => {}
-                }
-            }
-            if nondegenerate && post.req.iter().all(|(c, k)| dep_of(d, *c) >= *k) {
-                return bad("requirements-met-no-mint", format!("{u} is credited every required token ({:?}) but the ledger was not consumed by a mint", d));
-            }
-        }
-
+        // ------------------------------------------------------------ per operation
         match kind.as_str() {
             "send" | "recv" => {
                 let coll = src.unwrap().0;
                 let pre_d = pre.dep.get(&r).unwrap_or(&empty);
                 let post_d = post.dep.get(&r).unwrap_or(&empty);
-                let minted = post.tnum == pre.tnum + 1;
-                if post.tnum != pre.tnum && !minted {
-                    return bad("mint-count-jump", format!("target collection went from {} to {} tokens", pre.tnum, post.tnum));
+                let minted = new_tgt.len() == 1;
+                if new_tgt.len() > 1 {
+                    return bad("mint-count-jump", format!("{} tokens appeared in the target collection: {:?}", new_tgt.len(), new_tgt));
                 }
-                if ok {
-                    if kind == "recv" {
+                let to_minter = kind == "recv" || kv_u64(&line, "to") == Some(SELF);
+                if ok && to_minter {
+                    if kind == "recv" && !self.is_coll(coll) {
                         return bad("direct-receive-accepted", "ReceiveNft called directly by an account was accepted".into());
                     }
-                    if pre.now <= pre.start {
-                        return bad("deposit-not-after-start", format!("deposit accepted at {} with start {}", pre.now, pre.start));
+                    if kv_u64(&line, "bad").unwrap_or(0) != 0 {
+                        return bad("malformed-deposit-accepted", "a deposit whose inner message is not DepositToken{valid recipient} was accepted".into());
                     }
-                    let Some(k) = req_of(&pre.req, coll) else {
+                    if gpre.now <= gpre.start {
+                        return bad("deposit-not-after-start", format!("deposit accepted at {} with start {}", gpre.now, gpre.start));
+                    }
+                    let Some(k) = req_of(&gpre.req, coll) else {
                         return bad("deposit-foreign-collection", format!("deposit from non-required collection {coll} accepted"));
                     };
-                    if dep_of(pre_d, coll) >= k {
-                        return bad("deposit-surplus", format!("recipient {r} already had {} of {k} from {coll}", dep_of(pre_d, coll)));
+                    if gpre.led_of(r, coll) >= k {
+                        return bad("deposit-surplus", format!("recipient {r} already had {} of {k} from {coll}", gpre.led_of(r, coll)));
                     }
-                    if pre.cnt[&r] >= pre.limit {
-                        return bad("deposit-beyond-limit", format!("recipient {r} has mint count {} ≥ limit {}", pre.cnt[&r], pre.limit));
+                    if gpre.cnt_of(r) >= gpre.limit {
+                        return bad("deposit-beyond-limit", format!("recipient {r} has {} mints ≥ limit {}", gpre.cnt_of(r), gpre.limit));
                     }
                     if post_own.is_some() || post_num + 1 != pre_num {
                         return bad("deposit-not-burned", format!("token {:?} still owned by {:?}; collection count {} -> {}", src, post_own, pre_num, post_num));
                     }
-                    let fulfilled = pre.req.iter().all(|(c, n)| dep_of(pre_d, *c) + if *c == coll { 1 } else { 0 } >= *n);
+                    let fulfilled = gpre.fulfils(r, coll);
                     if minted && !fulfilled {
-                        return bad("mint-without-requirements", format!("minted to {r} with ledger {:?} + 1×{coll}, required {:?}", pre_d, pre.req));
+                        return bad("mint-without-requirements", format!("minted to {r} with burned-since-last-mint {:?} + 1×{coll}, required {:?}", gpre.row(r), gpre.req));
                     }
                     if !minted && fulfilled {
-                        return bad("requirements-met-no-mint", format!("{r} reached {:?} + 1×{coll} = required {:?} but nothing was minted", pre_d, pre.req));
+                        return bad("requirements-met-no-mint", format!("{r} reached {:?} + 1×{coll} = required {:?} but nothing was minted", gpre.row(r), gpre.req));
                     }
                     if minted {
+                        if new_tgt[0].1 != r {
+                            return bad("mint-wrong-recipient", format!("minted id {} owned by {}, recipient {r}", new_tgt[0].0, new_tgt[0].1));
+                        }
                         if !post_d.is_empty() {
                             return bad("ledger-not-reset", format!("ledger of {r} after mint: {:?}", post_d));
                         }
                         if post.cnt[&r] != pre.cnt[&r] + 1 || post.left + 1 != pre.left {
                             return bad("mint-accounting", format!("count {}->{} left {}->{}", pre.cnt[&r], post.cnt[&r], pre.left, post.left));
-                        }
-                        if picked.is_none() || town != Some(r) {
-                            return bad("mint-wrong-recipient", format!("minted id {:?} owned by {:?}, recipient {r}", picked, town));
                         }
                     } else {
                         if dep_of(post_d, coll) != dep_of(pre_d, coll) + 1 {
@@ -435,24 +800,22 @@ impl Sut for S {
                             return bad("foreign-ledger-changed", format!("ledger of {u} changed {:?} -> {:?}", d, post.dep.get(u)));
                         }
                     }
-                } else {
-                    if post.dep != pre.dep || post.cnt != pre.cnt || post.left != pre.left || post.tnum != pre.tnum || post_own != pre_own || post_num != pre_num {
+                } else if !ok {
+                    if post.dep != pre.dep || post.cnt != pre.cnt || post.left != pre.left || post.tnum != pre.tnum || post_own != pre_own || post_num != pre_num || !new_tgt.is_empty() {
                         return bad("rejected-deposit-changed-state", format!("owner {:?}->{:?} count {}->{} ledger {:?}->{:?}", pre_own, post_own, pre_num, post_num, pre.dep, post.dep));
                     }
                     // completeness: a deposit that meets every stated condition must be accepted
                     if kind == "send" {
                         let caller = kv_u64(&line, "caller").unwrap();
-                        let to = kv_u64(&line, "to").unwrap();
                         let badm = kv_u64(&line, "bad").unwrap();
-                        if let Some(k) = req_of(&pre.req, coll) {
-                            let fulfilled = pre.req.iter().all(|(c, n)| dep_of(pre_d, *c) + if *c == coll { 1 } else { 0 } >= *n);
-                            if pre_own == Some(caller) && to == SELF && badm == 0 && self.is_coll(coll) && pre.now > pre.start && dep_of(pre_d, coll) < k && pre.cnt[&r] < pre.limit && (!fulfilled || pre.left > 0) {
-                                return bad("valid-deposit-rejected", format!("owner {caller} after start, ledger {:?}, required {:?}, count {} < {}", pre_d, pre.req, pre.cnt[&r], pre.limit));
+                        if let Some(k) = req_of(&gpre.req, coll) {
+                            let fulfilled = gpre.fulfils(r, coll);
+                            if pre_own == Some(caller) && to_minter && badm == 0 && self.is_coll(coll) && gpre.now > gpre.start && gpre.led_of(r, coll) < k && gpre.cnt_of(r) < gpre.limit && (!fulfilled || gpre.left > 0) {
+                                return bad("valid-deposit-rejected", format!("owner {caller} after start, burned-since-last-mint {:?}, required {:?}, mints {} < {}", gpre.row(r), gpre.req, gpre.cnt_of(r), gpre.limit));
                             }
                         }
                     }
                 }
-                None
             }
             "mint_to" | "mint_for" => {
                 if ok {
@@ -463,24 +826,73 @@ impl Sut for S {
                     if post.dep != pre.dep {
                         return bad("admin-mint-touched-ledger", format!("{:?} -> {:?}", pre.dep, post.dep));
                     }
-                    if post.tnum != pre.tnum + 1 || town != Some(r) || post.cnt[&r] != pre.cnt[&r] + 1 {
-                        return bad("admin-mint-accounting", format!("tnum {}->{} owner {:?} count {}->{}", pre.tnum, post.tnum, town, pre.cnt[&r], post.cnt[&r]));
+                    if new_tgt.len() != 1 || new_tgt[0].1 != r {
+                        return bad("admin-mint-accounting", format!("new tokens in the target collection {:?}, recipient {r}", new_tgt));
                     }
-                } else if post != pre {
+                } else if post != pre || !new_tgt.is_empty() {
                     return bad("rejected-mint-changed-state", "state changed by a failed admin mint".into());
                 }
-                None
             }
             _ => {
-                if post.tnum != pre.tnum {
-                    return bad("mint-outside-deposit", format!("target collection went from {} to {} tokens", pre.tnum, post.tnum));
+                if !new_tgt.is_empty() {
+                    return bad("mint-outside-deposit", format!("tokens {:?} appeared in the target collection", new_tgt));
                 }
                 if post.dep != pre.dep {
                     return bad("ledger-changed-outside-deposit", format!("{:?} -> {:?}", pre.dep, post.dep));
                 }
-                None
+                if kind == "set_start" && ok && gpre.now >= gpre.start {
+                    return bad("start-moved-after-start", format!("start time moved {} -> {} at {} (deposits were already open)", gpre.start, post.start, gpre.now));
+                }
             }
         }
+
+        // ------------------------------------------------------------ every state: the minter's answers against the ghost
+        if post.req != g.req {
+            return bad("requirements-changed", format!("requirement vector is {:?}, configured {:?}", post.req, g.req));
+        }
+        if post.start != g.start {
+            return bad("start-changed-outside-update", format!("start time is {}, last set to {}", post.start, g.start));
+        }
+        if post.limit != g.limit {
+            return bad("limit-changed-outside-update", format!("per-address limit is {}, last set to {}", post.limit, g.limit));
+        }
+        let nondegenerate = g.req.iter().any(|(_, n)| *n > 0);
+        for u in &self.users {
+            let row = g.row(*u);
+            for (c, n) in &row {
+                match req_of(&g.req, *c) {
+                    None => return bad("ledger-foreign-collection", format!("{n} tokens of non-required collection {c} were burned for {u}")),
+                    Some(k) if *n > k => return bad("ledger-above-required", format!("{n} > required {k} tokens of {c} burned for {u} since its last mint")),
+                    _ => {}
+                }
+            }
+            if nondegenerate && g.req.iter().all(|(c, k)| g.led_of(*u, *c) >= *k) {
+                return bad("requirements-met-no-mint", format!("every required token was burned for {u} ({:?}) but no mint consumed them", row));
+            }
+            if post.dep.get(u) != Some(&row) {
+                return bad("ledger-query-differs", format!("DepositedTokens({u}) = {:?}, burned for {u} since its last mint: {:?}", post.dep.get(u), row));
+            }
+        }
+        // conservation: burned(r,c) = required(c) × deposit-mints(r) + pending(r,c)
+        for ((u, c), n) in &g.credited {
+            let want = req_of(&g.req, *c).unwrap_or(0) as u64 * *g.dmints.get(u).unwrap_or(&0) + g.led_of(*u, *c) as u64;
+            if *n != want {
+                return bad("conservation", format!("{n} tokens of {c} burned for {u}, but required×mints + pending = {} × {} + {}", req_of(&g.req, *c).unwrap_or(0), g.dmints.get(u).unwrap_or(&0), g.led_of(*u, *c)));
+            }
+        }
+        // the stored ledger itself (typed constant of the crate), every recipient, against the ghost
+        if !self.storage_unreadable {
+            match self.stored_ledger() {
+                Some(st) => {
+                    let want: BTreeMap<(u64, u64), u32> = g.led.iter().filter(|(_, n)| **n > 0).map(|(k, n)| (*k, *n)).collect();
+                    if st != want {
+                        return bad("ledger-storage-differs", format!("RECEIVED_TOKENS = {:?}, burned since last mint = {:?}", st, want));
+                    }
+                }
+                None => self.storage_unreadable = true,
+            }
+        }
+        None
     }
 }
 
@@ -528,6 +940,9 @@ struct Gen<'a> {
     sut: &'a mut S,
     v: View,
     rng: Rng,
+    /// `noise what=…` payloads available in this tree: the known frame ops + every ExecuteMsg variant without a named op
+    noise: Vec<String>,
+    unknown_inner: Vec<String>,
 }
 
 impl<'a> Gen<'a> {
@@ -550,10 +965,8 @@ impl<'a> Gen<'a> {
         let m = self.v.maxid.max(1);
         self.step(&format!("obs users={} maxid={m}", fmt_list(&users)));
     }
-    /// returns (ok, minted)
-    fn send(&mut self, caller: u64, c: u64, id: u64, to: u64, rcpt: Option<u64>, bad: u64, tag: &str) -> (bool, bool) {
-        let r = rcpt.unwrap_or(caller);
-        let phase = if self.v.now < self.v.start {
+    fn phase(&self) -> &'static str {
+        if self.v.now < self.v.start {
             "before"
         } else if self.v.now == self.v.start {
             "at-start"
@@ -561,22 +974,11 @@ impl<'a> Gen<'a> {
             "start+1"
         } else {
             "after"
-        };
-        let st = format!(
-            "{}:{}:{}:{}",
-            if self.v.req_of(c).is_none() { "foreign" } else if self.v.need(r, c) == 0 { "surplus" } else if self.v.would_fulfil(r, c) { "final" } else { "partial" },
-            if *self.v.cnt.get(&r).unwrap_or(&0) >= self.v.limit { "at-limit" } else { "below-limit" },
-            if self.v.left == 0 { "sold-out" } else { "supply" },
-            phase
-        );
-        let out = self.step(&format!("send caller={caller} coll={c} id={id} to={to} rcpt={} bad={bad}", fmt_opt(&rcpt)));
+        }
+    }
+    fn after_deposit(&mut self, out: &str, r: u64, c: u64, id: u64) -> (bool, bool) {
         let ok = out.starts_with("ok");
         let minted = ok && !out.contains(" m=- ");
-        let how = if rcpt.is_none() { "implicit" } else if rcpt == Some(caller) { "explicit-self" } else { "explicit-other" };
-        self.ses.mark(format!("send:{tag}:{how}:{st}:k{}:{}", self.v.req.len(), if minted { "mint" } else if ok { "credit" } else { "err" }));
-        let oc = if minted { "mint" } else if ok { "credit" } else { "err" };
-        self.ses.count(&format!("send-tag:{tag}:{oc}"));
-        self.ses.count(&format!("send-state:{st}:{oc}"));
         if ok {
             self.v.owner.remove(&(c, id));
             if minted {
@@ -591,6 +993,59 @@ impl<'a> Gen<'a> {
         }
         (ok, minted)
     }
+    /// returns (ok, minted)
+    fn send(&mut self, caller: u64, c: u64, id: u64, to: u64, rcpt: Option<u64>, bad: u64, tag: &str) -> (bool, bool) {
+        let r = rcpt.unwrap_or(caller);
+        let phase = self.phase();
+        let kind = if self.v.req_of(c).is_none() { "foreign" } else if self.v.need(r, c) == 0 { "surplus" } else if self.v.would_fulfil(r, c) { "final" } else { "partial" };
+        let lim = if *self.v.cnt.get(&r).unwrap_or(&0) >= self.v.limit { "at-limit" } else { "below-limit" };
+        let sup = if self.v.left == 0 { "sold-out" } else { "supply" };
+        let st = format!("{kind}:{lim}:{sup}:{phase}");
+        let inner = if bad == 3 { format!(" inner={}", self.unknown_inner.first().cloned().unwrap_or_default()) } else { String::new() };
+        let out = self.step(&format!("send caller={caller} coll={c} id={id} to={to} rcpt={} bad={bad}{inner}", fmt_opt(&rcpt)));
+        let (ok, minted) = self.after_deposit(&out, r, c, id);
+        let how = if rcpt.is_none() { "implicit" } else if rcpt == Some(caller) { "explicit-self" } else { "explicit-other" };
+        let oc = if minted { "mint" } else if ok { "credit" } else { "err" };
+        self.ses.mark(format!("send:{tag}:{how}:{st}:k{}:{oc}", self.v.req.len()));
+        self.ses.count(&format!("send-tag:{tag}:{oc}"));
+        self.ses.count(&format!("send-state:{st}:{oc}"));
+        // coverage floor classes (see `main`)
+        let clean = tag != "not-owner" && tag != "bad-msg" && tag != "wrong-contract" && tag != "no-token" && bad == 0 && to == SELF;
+        if clean {
+            if minted {
+                self.ses.mark(format!("floor:mint:k{}", self.v.req.len()));
+                self.ses.mark(format!("floor:mint:{how}"));
+                self.ses.mark(format!("floor:mint:{phase}"));
+            } else if ok {
+                self.ses.mark(format!("floor:credit:{phase}"));
+            } else if lim == "below-limit" && (kind == "partial" || (kind == "final" && sup == "supply")) && (phase == "before" || phase == "at-start") {
+                self.ses.mark(format!("floor:reject:{phase}"));
+            } else if phase == "after" || phase == "start+1" {
+                if kind == "foreign" || kind == "surplus" {
+                    self.ses.mark(format!("floor:reject:{kind}"));
+                } else if lim == "at-limit" {
+                    self.ses.mark("floor:reject:at-limit");
+                } else if kind == "final" && sup == "sold-out" {
+                    self.ses.mark("floor:reject:sold-out");
+                }
+            }
+        }
+        (ok, minted)
+    }
+    fn recv(&mut self, caller: u64, sender: u64, id: u64, rcpt: Option<u64>, bad: u64) -> (bool, bool) {
+        let r = rcpt.unwrap_or(sender);
+        let out = self.step(&format!("recv caller={caller} sender={sender} id={id} rcpt={} bad={bad}", fmt_opt(&rcpt)));
+        let who = if COLLS.contains(&caller) { "collection" } else if caller >= 1000 { "other-contract" } else if caller == ADMIN { "admin" } else { "user" };
+        let (ok, minted) = self.after_deposit(&out, r, caller, id);
+        self.ses.mark(format!("recv:{who}:{}:bad{bad}:{}", if rcpt.is_some() { "explicit" } else { "implicit" }, if minted { "mint" } else { &out[..2] }));
+        if !ok && who != "collection" {
+            self.ses.mark(format!("floor:direct-recv:{who}:err"));
+        }
+        if ok && who == "collection" {
+            self.ses.mark("floor:recv-as-collection:stuck-token:ok");
+        }
+        (ok, minted)
+    }
     fn mint_to(&mut self, caller: u64, rcpt: u64, pay: u128, price: u128) -> bool {
         let out = self.step(&format!("mint_to caller={caller} rcpt={rcpt} pay={pay}"));
         let ok = out.starts_with("ok");
@@ -599,11 +1054,55 @@ impl<'a> Gen<'a> {
             if caller == ADMIN { "admin" } else { "stranger" },
             if pay == price { "exact" } else if pay < price { "under" } else { "over" },
             if self.v.left == 0 { "sold-out" } else { "supply" },
-            if ok { "ok" } else { "err" }
+            oks(ok)
         ));
         if ok {
             *self.v.cnt.entry(rcpt).or_insert(0) += 1;
             self.v.left -= 1;
+            self.ses.mark("floor:admin-mint:ok");
+        } else if caller != ADMIN {
+            self.ses.mark("floor:admin-mint:stranger:err");
+        }
+        ok
+    }
+    fn set_limit(&mut self, caller: u64, lim: u64) -> bool {
+        let out = self.step(&format!("set_limit caller={caller} limit={lim}"));
+        let ok = out.starts_with("ok");
+        if ok {
+            self.v.limit = lim as u32;
+        }
+        self.ses.mark(format!("set_limit:{}:{lim}:{}", if caller == ADMIN { "admin" } else { "stranger" }, oks(ok)));
+        ok
+    }
+    fn set_start(&mut self, caller: u64, t: u64) -> bool {
+        let rel = if t < self.v.now { "past" } else if t == self.v.now { "now" } else { "future" };
+        let ph = self.phase();
+        let out = self.step(&format!("set_start caller={caller} t={t}"));
+        let ok = out.starts_with("ok");
+        if ok {
+            self.v.start = t;
+        }
+        self.ses.mark(format!("set_start:{}:{ph}:{rel}:{}", if caller == ADMIN { "admin" } else { "stranger" }, oks(ok)));
+        if caller == ADMIN {
+            self.ses.mark(format!("floor:set_start:{}:{}", if ph == "before" { "before" } else { "started" }, oks(ok)));
+        }
+        ok
+    }
+    fn noise(&mut self, what: &str, caller: u64) -> bool {
+        let extra = if what == "trading" { format!(" t={}", self.v.now + 1_000_000_000) } else if what.starts_with("x:") { format!(" k={}", self.rng.range(0, 3)) } else { String::new() };
+        let out = self.step(&format!("noise what={what} caller={caller}{extra}"));
+        let ok = out.starts_with("ok");
+        self.ses.mark(format!("noise:{what}:{}:{}", if caller == ADMIN { "admin" } else { "user" }, oks(ok)));
+        if ok {
+            self.ses.mark(format!("floor:noise:{what}:ok"));
+        }
+        ok
+    }
+    fn xfer(&mut self, caller: u64, c: u64, id: u64, to: u64) -> bool {
+        let out = self.step(&format!("xfer caller={caller} coll={c} id={id} to={to}"));
+        let ok = out.starts_with("ok");
+        if ok {
+            self.v.owner.insert((c, id), to);
         }
         ok
     }
@@ -639,7 +1138,12 @@ fn begin<'a>(ses: &'a mut Session, sut: &'a mut S, name: &str, req: &[(u64, u32)
     ses.begin_case(sut, &header(name, req, start, limit, n, price));
     let rng = ses.rng.fork();
     let v = View { left: n, now: NOW0, start, limit, req: req.to_vec(), ..Default::default() };
-    Gen { ses, sut, v, rng }
+    let mut noise: Vec<String> = ["shuffle", "trading", "status", "migrate"].iter().map(|s| s.to_string()).collect();
+    for u in unknown_of(&sut.exec_root, &KNOWN_EXEC) {
+        noise.push(format!("x:{u}"));
+    }
+    let unknown_inner = unknown_of(&sut.inner_root, &KNOWN_INNER);
+    Gen { ses, sut, v, rng, noise, unknown_inner }
 }
 
 /// a random, mostly valid scenario for one requirement vector
@@ -684,11 +1188,7 @@ fn random_case(ses: &mut Session, sut: &mut S, idx: usize, req: &[(u64, u32)], n
     if g.rng.chance(1, 4) {
         let t = g.v.now + g.rng.range(0, 500);
         let caller = if g.rng.chance(4, 5) { ADMIN } else { users[0] };
-        let out = g.step(&format!("set_start caller={caller} t={t}"));
-        if out.starts_with("ok") {
-            g.v.start = t;
-        }
-        g.ses.mark(format!("set_start:{}:{}", if caller == ADMIN { "admin" } else { "stranger" }, &out[..2]));
+        g.set_start(caller, t);
     }
     // place the clock on or around the start
     let s = g.v.start;
@@ -707,7 +1207,7 @@ fn random_case(ses: &mut Session, sut: &mut S, idx: usize, req: &[(u64, u32)], n
             g.set_time(t);
         }
         let roll = g.rng.below(100);
-        if roll < 62 {
+        if roll < 58 {
             // a deposit
             let u = *g.rng.pick(&users);
             let rcpt = match g.rng.below(10) {
@@ -751,7 +1251,6 @@ fn random_case(ses: &mut Session, sut: &mut S, idx: usize, req: &[(u64, u32)], n
                     let rc = if cu == r && g.rng.chance(4, 5) { None } else { Some(r) };
                     g.send(cu, c, id, SELF, rc, 0, "valid");
                 }
-                let _ = (u, rcpt);
             } else if fault < 79 {
                 // foreign collection
                 let foreign: Vec<u64> = COLLS.iter().cloned().filter(|c| g.v.req_of(*c).is_none()).collect();
@@ -771,17 +1270,17 @@ fn random_case(ses: &mut Session, sut: &mut S, idx: usize, req: &[(u64, u32)], n
                     g.send(u, c, id, SELF, rcpt, 0, "not-owner");
                 }
             } else if fault < 89 {
-                // malformed inner message / invalid recipient string
+                // malformed inner message / invalid recipient string / inner variant this file has never heard of
                 let c = g.rng.pick(&g.v.req.clone()).0;
                 if let Some(id) = g.v.tokens_of(u, c).first().cloned() {
-                    let b = g.rng.range(1, 2);
+                    let b = if !g.unknown_inner.is_empty() && g.rng.chance(1, 2) { 3 } else { g.rng.range(1, 2) };
                     g.send(u, c, id, SELF, rcpt, b, "bad-msg");
                 }
             } else if fault < 94 {
                 // sent to something that is not the minter
                 let c = g.rng.pick(&g.v.req.clone()).0;
                 if let Some(id) = g.v.tokens_of(u, c).first().cloned() {
-                    let to = *g.rng.pick(&[TGT, users[0], COLLS[3], 1009]);
+                    let to = *g.rng.pick(&[TGT, users[0], COLLS[3], TM_FACTORY]);
                     g.send(u, c, id, to, rcpt, 0, "wrong-contract");
                 }
             } else {
@@ -790,17 +1289,30 @@ fn random_case(ses: &mut Session, sut: &mut S, idx: usize, req: &[(u64, u32)], n
                 let id = g.v.maxid + 5;
                 g.send(u, c, id, SELF, rcpt, 0, "no-token");
             }
-        } else if roll < 70 {
-            // the hook called directly by an account
+        } else if roll < 66 {
+            // the hook called directly: by an account, by a required collection contract (forged — the hook can only be reached
+            // through SendNft on a real chain), by another contract; well-formed and malformed inner messages
             let u = *g.rng.pick(&users);
-            let caller = if g.rng.chance(4, 5) { u } else { ADMIN };
-            let sender = if g.rng.chance(3, 4) { caller } else { *g.rng.pick(&users) };
             let c = g.rng.pick(&g.v.req.clone()).0;
-            let id = g.v.tokens_of(u, c).first().cloned().unwrap_or(1);
+            let caller = match g.rng.below(10) {
+                0..=4 => u,
+                5 => ADMIN,
+                6 => *g.rng.pick(&[TGT, TM_FACTORY, BASE_MINTERS[0]]),
+                _ => c,
+            };
+            if caller == c && g.v.tokens_of(SELF, c).is_empty() && g.rng.chance(2, 3) {
+                // park a token at the minter first (plain TransferNft: never credited by itself)
+                if let Some(id0) = g.v.tokens_of(u, c).first().cloned() {
+                    g.xfer(u, c, id0, SELF);
+                }
+            }
+            let stuck = g.v.tokens_of(SELF, c);
+            let sender = if g.rng.chance(3, 4) && caller < 1000 { caller } else { *g.rng.pick(&users) };
+            let id = if caller == c && !stuck.is_empty() && g.rng.chance(3, 4) { stuck[0] } else { g.v.tokens_of(u, c).first().cloned().unwrap_or(1) };
             let rcpt = if g.rng.chance(1, 2) { None } else { Some(*g.rng.pick(&users)) };
-            let out = g.step(&format!("recv caller={caller} sender={sender} id={id} rcpt={} bad=0", fmt_opt(&rcpt)));
-            g.ses.mark(format!("recv:{}:{}:{}", if caller == ADMIN { "admin" } else { "user" }, if rcpt.is_some() { "explicit" } else { "implicit" }, &out[..2]));
-        } else if roll < 77 {
+            let b = if g.rng.chance(1, 5) { g.rng.range(1, 2) } else { 0 };
+            g.recv(caller, sender, id, rcpt, b);
+        } else if roll < 72 {
             // clock
             let s = g.v.start;
             let t = match g.rng.below(12) {
@@ -810,7 +1322,7 @@ fn random_case(ses: &mut Session, sut: &mut S, idx: usize, req: &[(u64, u32)], n
                 _ => g.v.now.max(s) + g.rng.range(1, 100_000),
             };
             g.set_time(t);
-        } else if roll < 84 {
+        } else if roll < 78 {
             let caller = if g.rng.chance(5, 6) { ADMIN } else { users[0] };
             let rcpt = *g.rng.pick(&users);
             let pay = match g.rng.below(6) {
@@ -819,7 +1331,7 @@ fn random_case(ses: &mut Session, sut: &mut S, idx: usize, req: &[(u64, u32)], n
                 _ => price,
             };
             g.mint_to(caller, rcpt, pay, price);
-        } else if roll < 87 {
+        } else if roll < 81 {
             let id = g.rng.range(0, n as u64 + 1);
             let rcpt = *g.rng.pick(&users);
             let out = g.step(&format!("mint_for caller={ADMIN} id={id} rcpt={rcpt} pay={price}"));
@@ -828,58 +1340,74 @@ fn random_case(ses: &mut Session, sut: &mut S, idx: usize, req: &[(u64, u32)], n
                 *g.v.cnt.entry(rcpt).or_insert(0) += 1;
                 g.v.left -= 1;
             }
-            g.ses.mark(format!("mint_for:{}:{}", if id == 0 { "zero" } else if id > n as u64 { "above" } else { "in-range" }, if ok { "ok" } else { "err" }));
-        } else if roll < 91 {
-            // move a source token around (possibly to the minter itself: stuck, never credited)
+            g.ses.mark(format!("mint_for:{}:{}", if id == 0 { "zero" } else if id > n as u64 { "above" } else { "in-range" }, oks(ok)));
+        } else if roll < 85 {
+            // move a source token around (possibly to the minter itself: stuck, never credited — unless the collection "calls" the hook)
             let u = *g.rng.pick(&users);
             let c = *g.rng.pick(&COLLS);
             if let Some(id) = g.v.tokens_of(u, c).first().cloned() {
-                let to = if g.rng.chance(1, 6) { SELF } else { *g.rng.pick(&users) };
+                let to = if g.rng.chance(1, 4) { SELF } else { *g.rng.pick(&users) };
                 let caller = if g.rng.chance(1, 5) { *g.rng.pick(&users) } else { u };
-                let out = g.step(&format!("xfer caller={caller} coll={c} id={id} to={to}"));
-                if out.starts_with("ok") {
-                    g.v.owner.insert((c, id), to);
-                }
-                g.ses.mark(format!("xfer:{}:{}:{}", if caller == u { "owner" } else { "other" }, if to == SELF { "to-minter" } else { "to-user" }, &out[..2]));
+                let ok = g.xfer(caller, c, id, to);
+                g.ses.mark(format!("xfer:{}:{}:{}", if caller == u { "owner" } else { "other" }, if to == SELF { "to-minter" } else { "to-user" }, oks(ok)));
             }
-        } else if roll < 94 {
-            // approval, then the spender sends (credited to the spender unless a recipient is named)
+        } else if roll < 91 {
+            // approvals and operators, with and without expiry; then the spender sends (credited to the spender unless a recipient is named)
             let u = *g.rng.pick(&users);
             let sp = *g.rng.pick(&users);
             let c = g.rng.pick(&g.v.req.clone()).0;
+            let until = match g.rng.below(4) {
+                0 => format!("{}", g.v.now + 1),
+                1 => format!("{}", g.v.now + g.rng.range(2, 200_000)),
+                2 => format!("{}", g.v.now.saturating_sub(g.rng.range(0, 5))),
+                _ => "-".to_string(),
+            };
             if let Some(id) = g.v.tokens_of(u, c).first().cloned() {
-                let out = g.step(&format!("approve caller={u} coll={c} id={id} spender={sp}"));
-                if out.starts_with("ok") && sp != u {
+                let by_op = g.rng.chance(1, 2);
+                let out = if by_op { g.step(&format!("approve_all caller={u} coll={c} operator={sp} until={until}")) } else { g.step(&format!("approve caller={u} coll={c} id={id} spender={sp} until={until}")) };
+                g.ses.mark(format!("{}:{}:{}", if by_op { "approve_all" } else { "approve" }, if until == "-" { "never" } else { "timed" }, &out[..2]));
+                if g.rng.chance(1, 3) {
+                    let t = g.v.now + g.rng.range(0, 2);
+                    g.set_time(t);
+                }
+                if g.rng.chance(1, 5) {
+                    let out = if by_op { g.step(&format!("revoke_all caller={u} coll={c} operator={sp}")) } else { g.step(&format!("revoke caller={u} coll={c} id={id} spender={sp}")) };
+                    g.ses.mark(format!("{}:{}", if by_op { "revoke_all" } else { "revoke" }, &out[..2]));
+                }
+                if sp != u {
                     let rcpt = if g.rng.chance(1, 2) { None } else { Some(u) };
                     // the generator's `send` bookkeeping keys on ownership only, which is what we want here
-                    g.send(sp, c, id, SELF, rcpt, 0, "by-spender");
+                    let (ok, _) = g.send(sp, c, id, SELF, rcpt, 0, if by_op { "by-operator" } else { "by-spender" });
+                    if ok {
+                        g.ses.mark(if by_op { "floor:operator-send:ok" } else { "floor:spender-send:ok" });
+                    }
                 }
             }
-        } else if roll < 96 {
+        } else if roll < 93 {
             let caller = if g.rng.chance(4, 5) { ADMIN } else { users[0] };
             let lim = if n >= 100 { g.rng.range(3, 6) } else { g.rng.range(0, 4) };
-            let out = g.step(&format!("set_limit caller={caller} limit={lim}"));
-            if out.starts_with("ok") {
-                g.v.limit = lim as u32;
-            }
-            g.ses.mark(format!("set_limit:{}:{lim}:{}", if caller == ADMIN { "admin" } else { "stranger" }, &out[..2]));
-        } else if roll < 98 {
+            g.set_limit(caller, lim);
+        } else if roll < 95 {
             let out = g.step(&format!("purge caller={}", users[0]));
             if out.starts_with("ok") {
                 g.v.cnt.clear();
             }
             g.ses.mark(format!("purge:{}:{}", if g.v.left == 0 { "sold-out" } else { "supply" }, &out[..2]));
-        } else if roll < 99 {
+        } else if roll < 96 {
             let caller = if g.rng.chance(3, 4) { ADMIN } else { users[0] };
             let out = g.step(&format!("burn_remaining caller={caller}"));
             if out.starts_with("ok") {
                 g.v.left = 0;
             }
             g.ses.mark(format!("burn_remaining:{}:{}", if caller == ADMIN { "admin" } else { "stranger" }, &out[..2]));
+        } else if roll < 99 {
+            // operations outside the mechanism (and message variants this file does not know): must not move ledger / collection
+            let what = g.rng.pick(&g.noise.clone()).clone();
+            let caller = if g.rng.chance(1, 2) { ADMIN } else { *g.rng.pick(&users) };
+            g.noise(&what, caller);
         } else {
             let t = g.v.now + 5;
-            let out = g.step(&format!("set_start caller={ADMIN} t={t}"));
-            g.ses.mark(format!("set_start:late:{}", &out[..2]));
+            g.set_start(ADMIN, t);
         }
         if g.rng.chance(1, 5) {
             g.obs();
@@ -936,7 +1464,7 @@ fn sellout_case(ses: &mut Session, sut: &mut S, idx: usize, req: &[(u64, u32)], 
         }
     }
     g.set_time(start + 1);
-    // round-robin: everybody deposits everything, in order
+    // round-robin: everybody deposits everything, in order — all in the same block
     let maxlen = toks.values().map(|v| v.len()).max().unwrap_or(0);
     for i in 0..maxlen {
         for u in users {
@@ -994,13 +1522,230 @@ fn limit_case(ses: &mut Session, sut: &mut S, idx: usize, req: &[(u64, u32)], li
         g.send(u, c, id, SELF, Some(21), 0, "limit");
     }
     // raising the limit re-opens deposits
-    let out = g.step(&format!("set_limit caller={ADMIN} limit=3"));
-    if out.starts_with("ok") {
-        g.v.limit = 3;
-    }
+    g.set_limit(ADMIN, 3);
     if let Some((c, id)) = toks.iter().find(|t| g.v.owner.contains_key(t)).cloned() {
         g.send(u, c, id, SELF, None, 0, "limit");
     }
+    g.obs();
+    ses.end_case();
+}
+
+/// scripted: the limit is LOWERED below a user's mint count between two partial deposits, then raised again
+fn limit_lowered_case(ses: &mut Session, sut: &mut S, idx: usize, two_colls: bool) {
+    let req: Vec<(u64, u32)> = if two_colls { vec![(COLLS[0], 1), (COLLS[1], 1)] } else { vec![(COLLS[0], 2)] };
+    let start = NOW0 + 100;
+    let mut g = begin(ses, sut, &format!("limit-lowered{idx}"), &req, start, 3, 6, 0);
+    let u = 20u64;
+    let mut toks = vec![];
+    for (c, k) in &req {
+        for _ in 0..*k {
+            toks.push((*c, g.give(*c, u).unwrap()));
+        }
+    }
+    g.set_time(start + 3);
+    g.mint_to(ADMIN, u, 0, 0);
+    g.mint_to(ADMIN, u, 0, 0);
+    let (ok1, _) = g.send(u, toks[0].0, toks[0].1, SELF, None, 0, "limit-lowered");
+    let low = g.set_limit(ADMIN, 2);
+    let (ok2, _) = g.send(u, toks[1].0, toks[1].1, SELF, None, 0, "limit-lowered");
+    if ok1 && low && !ok2 {
+        g.ses.mark("floor:limit-lowered-between-deposits:err");
+    }
+    g.obs();
+    let up = g.set_limit(ADMIN, 3);
+    let (ok3, m3) = g.send(u, toks[1].0, toks[1].1, SELF, None, 0, "limit-lowered");
+    if up && ok3 && m3 {
+        g.ses.mark("floor:limit-raised-again:mint");
+    }
+    g.obs();
+    ses.end_case();
+}
+
+/// scripted: UpdateStartTime around deposits — `t == now` followed by a deposit at `now` and at `now+1`; after the start it is frozen
+fn start_update_case(ses: &mut Session, sut: &mut S, idx: usize, t_rel: i64) {
+    let req = [(COLLS[0], 2u32)];
+    let start = NOW0 + 500;
+    let mut g = begin(ses, sut, &format!("start-update{idx}"), &req, start, 2, 3, 0);
+    let u = 20u64;
+    let toks: Vec<u64> = (0..4).map(|_| g.give(COLLS[0], u).unwrap()).collect();
+    g.set_time(NOW0 + 100);
+    g.send(u, COLLS[0], toks[0], SELF, None, 0, "start-update"); // before the start
+    g.set_start(21, NOW0 + 100); // a stranger
+    let now = g.v.now;
+    let okset = g.set_start(ADMIN, (now as i64 + t_rel) as u64);
+    let (ok_at, _) = g.send(u, COLLS[0], toks[0], SELF, None, 0, "start-update"); // same block as the update
+    if okset && t_rel == 0 && !ok_at {
+        g.ses.mark("floor:start-set-to-now:deposit-at-now:err");
+    }
+    let s = g.v.start;
+    g.set_time(s);
+    g.send(u, COLLS[0], toks[0], SELF, None, 0, "start-update");
+    g.set_time(s + 1);
+    let (ok_after, _) = g.send(u, COLLS[0], toks[0], SELF, None, 0, "start-update");
+    if okset && ok_after {
+        g.ses.mark("floor:start-updated:deposit-at-start+1:ok");
+    }
+    // a credit exists now: the start time must be frozen (moving it would put the credit before the start)
+    let later = g.v.now + 1000;
+    g.set_start(ADMIN, later);
+    g.set_start(ADMIN, s + 1);
+    g.send(u, COLLS[0], toks[1], SELF, None, 0, "start-update");
+    g.obs();
+    ses.end_case();
+}
+
+/// scripted: a token parked at the minter with TransferNft (stuck), then the hook is "called by the collection" (forged)
+fn stuck_token_case(ses: &mut Session, sut: &mut S, idx: usize, explicit: bool) {
+    let req = [(COLLS[0], 2u32), (COLLS[1], 1u32)];
+    let start = NOW0 + 100;
+    let mut g = begin(ses, sut, &format!("stuck{idx}"), &req, start, 2, 3, 0);
+    let (u, v) = (20u64, 21u64);
+    let a: Vec<u64> = (0..3).map(|_| g.give(COLLS[0], u).unwrap()).collect();
+    let b = g.give(COLLS[1], u).unwrap();
+    let f = g.give(COLLS[2], u).unwrap();
+    g.set_time(start + 5);
+    g.xfer(u, COLLS[0], a[0], SELF);
+    g.xfer(u, COLLS[2], f, SELF);
+    g.obs();
+    let rc = if explicit { Some(v) } else { None };
+    let r = rc.unwrap_or(u);
+    // everybody but the collection itself is rejected, whatever they claim
+    g.recv(u, u, a[0], rc, 0);
+    g.recv(ADMIN, u, a[0], rc, 0);
+    g.recv(TGT, u, a[0], rc, 0);
+    g.recv(BASE_MINTERS[0], u, a[0], rc, 0);
+    g.recv(COLLS[1], u, a[0], rc, 0); // another required collection: it has no such token at the minter
+    g.recv(COLLS[2], u, f, rc, 0); // a foreign collection whose token IS parked at the minter
+    g.recv(COLLS[0], u, a[1], rc, 0); // the right collection, but a token the minter does not hold
+    g.recv(COLLS[0], u, a[0], rc, 1);
+    g.recv(COLLS[0], u, a[0], rc, 2);
+    // the collection contract "calls" the hook for the parked token: burned and credited
+    g.recv(COLLS[0], u, a[0], rc, 0);
+    g.recv(COLLS[0], u, a[0], rc, 0); // a second time: the token is gone
+    g.obs();
+    // the rest arrives the normal way and completes the set
+    g.send(u, COLLS[0], a[1], SELF, rc, 0, "stuck");
+    g.send(u, COLLS[1], b, SELF, rc, 0, "stuck");
+    let _ = r;
+    g.obs();
+    ses.end_case();
+}
+
+/// scripted: cw721 operators and approvals with expiry; who is credited when a spender / operator sends
+fn operator_case(ses: &mut Session, sut: &mut S, idx: usize, by_operator: bool) {
+    let req = [(COLLS[0], 2u32)];
+    let start = NOW0 + 100;
+    let mut g = begin(ses, sut, &format!("operator{idx}"), &req, start, 3, 4, 0);
+    let (u, v, x) = (20u64, 21u64, 22u64);
+    let t: Vec<u64> = (0..6).map(|_| g.give(COLLS[0], u).unwrap()).collect();
+    let now = start + 10;
+    g.set_time(now);
+    let c = COLLS[0];
+    let grant = |g: &mut Gen, id: u64, until: String| -> String {
+        if by_operator {
+            g.step(&format!("approve_all caller={u} coll={c} operator={v} until={until}"))
+        } else {
+            g.step(&format!("approve caller={u} coll={c} id={id} spender={v} until={until}"))
+        }
+    };
+    let tag = if by_operator { "by-operator" } else { "by-spender" };
+    // already expired data is refused
+    grant(&mut g, t[0], format!("{now}"));
+    g.send(v, c, t[0], SELF, None, 0, "not-owner");
+    // valid until now+10: accepted at now+9, refused at now+10
+    grant(&mut g, t[0], format!("{}", now + 10));
+    g.set_time(now + 9);
+    let (ok, _) = g.send(v, c, t[0], SELF, None, 0, tag); // credited to v (the sender field), not to the owner u
+    if ok {
+        g.ses.mark(format!("floor:{tag}:implicit-credits-sender"));
+    }
+    grant(&mut g, t[1], format!("{}", now + 10));
+    g.set_time(now + 10);
+    let (ok, _) = g.send(v, c, t[1], SELF, Some(u), 0, "not-owner");
+    if !ok {
+        g.ses.mark(format!("floor:{tag}:expired:err"));
+    }
+    // never expiring; explicit recipient = the owner
+    grant(&mut g, t[1], "-".to_string());
+    g.send(v, c, t[1], SELF, Some(u), 0, tag);
+    // revoked
+    grant(&mut g, t[2], "-".to_string());
+    if by_operator {
+        g.step(&format!("revoke_all caller={u} coll={c} operator={v}"));
+    } else {
+        g.step(&format!("revoke caller={u} coll={c} id={} spender={v}", t[2]));
+    }
+    g.send(v, c, t[2], SELF, None, 0, "not-owner");
+    // an operator may approve a third party (check_can_approve); a mere spender may not
+    g.step(&format!("approve_all caller={u} coll={c} operator={v} until=-"));
+    g.step(&format!("approve caller={v} coll={c} id={} spender={x} until=-", t[2]));
+    g.send(x, c, t[2], SELF, None, 0, "by-spender");
+    g.step(&format!("revoke_all caller={u} coll={c} operator={v}"));
+    g.step(&format!("approve caller={x} coll={c} id={} spender={v} until=-", t[3]));
+    // v completes its own set with the owner's help (second credit for v → mint to v)
+    g.send(u, c, t[3], SELF, Some(v), 0, "valid");
+    g.obs();
+    ses.end_case();
+}
+
+/// scripted: with partial ledgers in place, every operation that is NOT part of the mechanism (incl. unknown message variants)
+fn surface_case(ses: &mut Session, sut: &mut S, idx: usize, after_start: bool) {
+    let req = [(COLLS[0], 1u32), (COLLS[1], 1u32)];
+    let start = NOW0 + 100;
+    let mut g = begin(ses, sut, &format!("surface{idx}"), &req, start, 2, 3, 0);
+    let (u, v) = (20u64, 21u64);
+    let a = g.give(COLLS[0], u).unwrap();
+    let b = g.give(COLLS[1], u).unwrap();
+    let a2 = g.give(COLLS[0], v).unwrap();
+    if after_start {
+        g.set_time(start + 1);
+        g.send(u, COLLS[0], a, SELF, None, 0, "surface");
+        g.send(v, COLLS[0], a2, SELF, Some(u), 0, "surface"); // surplus for u
+    }
+    g.obs();
+    for what in g.noise.clone() {
+        for caller in [ADMIN, u] {
+            g.noise(&what, caller);
+        }
+        g.obs();
+    }
+    if !after_start {
+        g.set_time(start + 1);
+        g.send(u, COLLS[0], a, SELF, None, 0, "surface");
+    }
+    g.noise("shuffle", v); // between the two deposits of one set
+    g.noise("migrate", ADMIN);
+    g.send(u, COLLS[1], b, SELF, None, 0, "surface");
+    g.obs();
+    ses.end_case();
+}
+
+/// scripted: the literal reading "mints exactly when … credited" / "ledger reset after each mint" does NOT hold for the admin's
+/// airdrops (`C17_mint_exactly_when_counterexample`, `C17_reset_after_each_mint_counterexample`): replayed here on the real code
+fn airdrop_case(ses: &mut Session, sut: &mut S, idx: usize, mint_for: bool) {
+    let req = [(COLLS[0], 2u32)];
+    let start = NOW0 + 100;
+    let mut g = begin(ses, sut, &format!("airdrop{idx}"), &req, start, 3, 3, 0);
+    let u = 20u64;
+    let t: Vec<u64> = (0..2).map(|_| g.give(COLLS[0], u).unwrap()).collect();
+    g.set_time(start + 1);
+    g.send(u, COLLS[0], t[0], SELF, None, 0, "airdrop");
+    let ok = if mint_for {
+        let out = g.step(&format!("mint_for caller={ADMIN} id=2 rcpt={u} pay=0"));
+        if out.starts_with("ok") {
+            *g.v.cnt.entry(u).or_insert(0) += 1;
+            g.v.left -= 1;
+        }
+        out.starts_with("ok")
+    } else {
+        g.mint_to(ADMIN, u, 0, 0)
+    };
+    // a token was minted to u without the required deposits, and u's partial ledger is still there
+    if ok && g.v.dep.get(&(u, COLLS[0])) == Some(&1) {
+        g.ses.mark("floor:airdrop:mint-without-deposits:ledger-kept");
+    }
+    g.obs();
+    g.send(u, COLLS[0], t[1], SELF, None, 0, "airdrop");
     g.obs();
     ses.end_case();
 }
@@ -1025,6 +1770,9 @@ fn weird_case(ses: &mut Session, sut: &mut S, idx: usize, req: &[(u64, u32)]) {
         if !COLLS.contains(&c) {
             let out = g.step(&format!("recv caller={c} sender={c} id=1 rcpt=- bad=0"));
             g.ses.mark(format!("recv:required-account:{}", &out[..2]));
+            if out.starts_with("err") {
+                g.ses.mark("floor:direct-recv:required-account:err");
+            }
             let out = g.step(&format!("recv caller={c} sender={u} id=1 rcpt={u} bad=0"));
             g.ses.mark(format!("recv:required-account:explicit:{}", &out[..2]));
         }
@@ -1093,6 +1841,41 @@ fn main() {
     if ses.maybe_replay(&mut sut) {
         ses.finish(&mut sut);
     }
+    // ---- message surface, enumerated at run time
+    let all_exec: Vec<String> = schema_variants(&sut.exec_root).into_iter().map(|(n, _)| n).collect();
+    let unknown_exec = unknown_of(&sut.exec_root, &KNOWN_EXEC);
+    let unknown_inner = unknown_of(&sut.inner_root, &KNOWN_INNER);
+    ses.note(format!("ExecuteMsg variants found in the schema: {:?}; without a named op (sent as raw JSON under the frame monitors): {:?}; unknown ReceiveNftMsg variants: {:?}", all_exec, unknown_exec, unknown_inner));
+    for k in KNOWN_EXEC {
+        if !all_exec.iter().any(|v| v == k) {
+            ses.note(format!("ExecuteMsg variant `{k}` no longer exists in the schema (its op will simply be rejected on both sides)"));
+        }
+    }
+    for v in &unknown_exec {
+        ses.mark(format!("surface:unknown-exec:{v}"));
+    }
+    for v in &unknown_inner {
+        ses.mark(format!("surface:unknown-inner:{v}"));
+    }
+
+    // ---- coverage floor: without these the run would be vacuous
+    for k in 1..=3 {
+        ses.require(format!("floor:mint:k{k}"));
+    }
+    for c in [
+        "floor:mint:implicit", "floor:mint:explicit-other", "floor:mint:start+1", "floor:mint:after", "floor:credit:start+1", "floor:credit:after",
+        "floor:reject:before", "floor:reject:at-start", "floor:reject:foreign", "floor:reject:surplus", "floor:reject:at-limit", "floor:reject:sold-out",
+        "floor:direct-recv:user:err", "floor:direct-recv:admin:err", "floor:direct-recv:other-contract:err", "floor:direct-recv:required-account:err",
+        "floor:recv-as-collection:stuck-token:ok", "floor:admin-mint:ok", "floor:admin-mint:stranger:err",
+        "floor:limit-lowered-between-deposits:err", "floor:limit-raised-again:mint",
+        "floor:start-set-to-now:deposit-at-now:err", "floor:start-updated:deposit-at-start+1:ok", "floor:set_start:before:ok", "floor:set_start:started:err",
+        "floor:by-operator:implicit-credits-sender", "floor:by-operator:expired:err", "floor:by-spender:implicit-credits-sender", "floor:by-spender:expired:err",
+        "floor:noise:shuffle:ok", "floor:noise:trading:ok", "floor:noise:status:ok", "floor:noise:migrate:ok",
+        "floor:airdrop:mint-without-deposits:ledger-kept",
+    ] {
+        ses.require(c);
+    }
+
     let vectors = all_vectors();
     assert_eq!(vectors.len(), 39);
 
@@ -1118,7 +1901,22 @@ fn main() {
             idx += 1;
         }
     }
-    // 3. vectors the factory does not refuse although the property does not speak about them
+    // 3. multi-step shapes: limit lowered between two deposits, start time updated around deposits, parked token + forged hook call,
+    //    operators / expiring approvals, everything outside the mechanism with partial ledgers in place, airdrops
+    limit_lowered_case(&mut ses, &mut sut, 0, false);
+    limit_lowered_case(&mut ses, &mut sut, 1, true);
+    for (i, t_rel) in [0i64, 1, 50, -1].iter().enumerate() {
+        start_update_case(&mut ses, &mut sut, i, *t_rel);
+    }
+    stuck_token_case(&mut ses, &mut sut, 0, false);
+    stuck_token_case(&mut ses, &mut sut, 1, true);
+    operator_case(&mut ses, &mut sut, 0, true);
+    operator_case(&mut ses, &mut sut, 1, false);
+    surface_case(&mut ses, &mut sut, 0, false);
+    surface_case(&mut ses, &mut sut, 1, true);
+    airdrop_case(&mut ses, &mut sut, 0, false);
+    airdrop_case(&mut ses, &mut sut, 1, true);
+    // 4. vectors the factory does not refuse although the property does not speak about them
     let weird: Vec<Vec<(u64, u32)>> = vec![
         vec![],
         vec![(COLLS[0], 0)],
@@ -1131,8 +1929,8 @@ fn main() {
     for (i, v) in weird.iter().enumerate() {
         weird_case(&mut ses, &mut sut, i, v);
     }
-    // 4. random scenarios over all 39 requirement vectors
-    let per_vector = ses.scale(20, 220);
+    // 5. random scenarios over all 39 requirement vectors
+    let per_vector = ses.scale(20, 200);
     let n_ops = ses.scale(40, 60);
     let mut idx = 0;
     for _ in 0..per_vector {
@@ -1141,13 +1939,16 @@ fn main() {
             idx += 1;
         }
     }
-    // 5. exhaustive small scope
+    // 6. exhaustive small scope
     if ses.tier() == Tier::Thorough {
         exhaustive(&mut ses, &mut sut, 5);
         ses.exhaustive = true;
     } else {
         exhaustive(&mut ses, &mut sut, 3);
     }
-    ses.note("requirement vectors: all 39 of (1..3 collections × amounts 1..3) in shuffled entry order + 8 degenerate ones; 2..4 users + admin; clock at start−1/start/start+1 ns and later; n ∈ {1,2,3,4,6}; limit 1..3");
+    if sut.storage_unreadable {
+        ses.note("RECEIVED_TOKENS could not be read through token_merge_minter::state (layout changed?): monitor ledger-storage-differs was switched off, ledger-query-differs stays on");
+    }
+    ses.note("requirement vectors: all 39 of (1..3 collections × amounts 1..3) in shuffled entry order + 7 degenerate ones; 2..4 users + admin; clock at start−1/start/start+1 ns and later; n ∈ {1,2,3,4,6,10,150}; limit 1..5; operators and approvals with expiry; forged hook calls by collections and other contracts; Shuffle / UpdateStartTradingTime / sudo UpdateStatus / migrate / unknown variants between deposits");
     ses.finish(&mut sut);
 }
